@@ -328,867 +328,1012 @@ crate::harnesses! {
     #[kani::stub(alloc::fmt::format, stub_format)]
     #[kani::stub(std::string::ToString::to_string, stub_to_string)]
     #[kani::stub(std::backtrace::Backtrace::capture, stub_backtrace_capture)]
+    #[kani::stub(<anyhow::Error as core::ops::Drop>::drop, stub_anyhow_drop)]
     #[kani::stub(core::slice::memchr::memchr, stub_memchr)]
     c16_ids_out_of_range_0 (quick, "Codes::from_code_const", "identifier 51") => ids_out_of_range::<_, 51>;
     #[kani::stub(alloc::fmt::format, stub_format)]
     #[kani::stub(std::string::ToString::to_string, stub_to_string)]
     #[kani::stub(std::backtrace::Backtrace::capture, stub_backtrace_capture)]
+    #[kani::stub(<anyhow::Error as core::ops::Drop>::drop, stub_anyhow_drop)]
     #[kani::stub(core::slice::memchr::memchr, stub_memchr)]
     c16_ids_out_of_range_1 (quick, "Codes::from_code_const", "identifier 1000") => ids_out_of_range::<_, 1000>;
     #[kani::stub(alloc::fmt::format, stub_format)]
     #[kani::stub(std::string::ToString::to_string, stub_to_string)]
     #[kani::stub(std::backtrace::Backtrace::capture, stub_backtrace_capture)]
+    #[kani::stub(<anyhow::Error as core::ops::Drop>::drop, stub_anyhow_drop)]
     #[kani::stub(core::slice::memchr::memchr, stub_memchr)]
     c16_ids_out_of_range_2 (quick, "Codes::from_code_const", "identifier {usize::MAX}") => ids_out_of_range::<_, {usize::MAX}>;
     #[kani::stub(alloc::fmt::format, stub_format)]
     #[kani::stub(std::string::ToString::to_string, stub_to_string)]
     #[kani::stub(std::backtrace::Backtrace::capture, stub_backtrace_capture)]
+    #[kani::stub(<anyhow::Error as core::ops::Drop>::drop, stub_anyhow_drop)]
     #[kani::stub(core::slice::memchr::memchr, stub_memchr)]
     #[kani::unwind(12)]
     c16_code_id_code_unary0_be (quick, "Codes::Unary param 0, BE stream", "to_code_const then from_code_const: same codewords (symbolic value) / rejected when no constant exists") => code_id_code_be::<_, {UNARY}, 0>;
     #[kani::stub(alloc::fmt::format, stub_format)]
     #[kani::stub(std::string::ToString::to_string, stub_to_string)]
     #[kani::stub(std::backtrace::Backtrace::capture, stub_backtrace_capture)]
+    #[kani::stub(<anyhow::Error as core::ops::Drop>::drop, stub_anyhow_drop)]
     #[kani::stub(core::slice::memchr::memchr, stub_memchr)]
     #[kani::unwind(12)]
     c16_code_id_code_unary0_le (thorough, "Codes::Unary param 0, LE stream", "to_code_const then from_code_const: same codewords (symbolic value) / rejected when no constant exists") => code_id_code_le::<_, {UNARY}, 0>;
     #[kani::stub(alloc::fmt::format, stub_format)]
     #[kani::stub(std::string::ToString::to_string, stub_to_string)]
     #[kani::stub(std::backtrace::Backtrace::capture, stub_backtrace_capture)]
+    #[kani::stub(<anyhow::Error as core::ops::Drop>::drop, stub_anyhow_drop)]
     #[kani::stub(core::slice::memchr::memchr, stub_memchr)]
     #[kani::unwind(12)]
     c16_code_id_code_gamma0_be (quick, "Codes::Gamma param 0, BE stream", "to_code_const then from_code_const: same codewords (symbolic value) / rejected when no constant exists") => code_id_code_be::<_, {GAMMA}, 0>;
     #[kani::stub(alloc::fmt::format, stub_format)]
     #[kani::stub(std::string::ToString::to_string, stub_to_string)]
     #[kani::stub(std::backtrace::Backtrace::capture, stub_backtrace_capture)]
+    #[kani::stub(<anyhow::Error as core::ops::Drop>::drop, stub_anyhow_drop)]
     #[kani::stub(core::slice::memchr::memchr, stub_memchr)]
     #[kani::unwind(12)]
     c16_code_id_code_gamma0_le (thorough, "Codes::Gamma param 0, LE stream", "to_code_const then from_code_const: same codewords (symbolic value) / rejected when no constant exists") => code_id_code_le::<_, {GAMMA}, 0>;
     #[kani::stub(alloc::fmt::format, stub_format)]
     #[kani::stub(std::string::ToString::to_string, stub_to_string)]
     #[kani::stub(std::backtrace::Backtrace::capture, stub_backtrace_capture)]
+    #[kani::stub(<anyhow::Error as core::ops::Drop>::drop, stub_anyhow_drop)]
     #[kani::stub(core::slice::memchr::memchr, stub_memchr)]
     #[kani::unwind(12)]
     c16_code_id_code_delta0_be (quick, "Codes::Delta param 0, BE stream", "to_code_const then from_code_const: same codewords (symbolic value) / rejected when no constant exists") => code_id_code_be::<_, {DELTA}, 0>;
     #[kani::stub(alloc::fmt::format, stub_format)]
     #[kani::stub(std::string::ToString::to_string, stub_to_string)]
     #[kani::stub(std::backtrace::Backtrace::capture, stub_backtrace_capture)]
+    #[kani::stub(<anyhow::Error as core::ops::Drop>::drop, stub_anyhow_drop)]
     #[kani::stub(core::slice::memchr::memchr, stub_memchr)]
     #[kani::unwind(12)]
     c16_code_id_code_delta0_le (thorough, "Codes::Delta param 0, LE stream", "to_code_const then from_code_const: same codewords (symbolic value) / rejected when no constant exists") => code_id_code_le::<_, {DELTA}, 0>;
     #[kani::stub(alloc::fmt::format, stub_format)]
     #[kani::stub(std::string::ToString::to_string, stub_to_string)]
     #[kani::stub(std::backtrace::Backtrace::capture, stub_backtrace_capture)]
+    #[kani::stub(<anyhow::Error as core::ops::Drop>::drop, stub_anyhow_drop)]
     #[kani::stub(core::slice::memchr::memchr, stub_memchr)]
     #[kani::unwind(12)]
     c16_code_id_code_omega0_be (quick, "Codes::Omega param 0, BE stream", "to_code_const then from_code_const: same codewords (symbolic value) / rejected when no constant exists") => code_id_code_be::<_, {OMEGA}, 0>;
     #[kani::stub(alloc::fmt::format, stub_format)]
     #[kani::stub(std::string::ToString::to_string, stub_to_string)]
     #[kani::stub(std::backtrace::Backtrace::capture, stub_backtrace_capture)]
+    #[kani::stub(<anyhow::Error as core::ops::Drop>::drop, stub_anyhow_drop)]
     #[kani::stub(core::slice::memchr::memchr, stub_memchr)]
     #[kani::unwind(12)]
     c16_code_id_code_omega0_le (thorough, "Codes::Omega param 0, LE stream", "to_code_const then from_code_const: same codewords (symbolic value) / rejected when no constant exists") => code_id_code_le::<_, {OMEGA}, 0>;
     #[kani::stub(alloc::fmt::format, stub_format)]
     #[kani::stub(std::string::ToString::to_string, stub_to_string)]
     #[kani::stub(std::backtrace::Backtrace::capture, stub_backtrace_capture)]
+    #[kani::stub(<anyhow::Error as core::ops::Drop>::drop, stub_anyhow_drop)]
     #[kani::stub(core::slice::memchr::memchr, stub_memchr)]
     #[kani::unwind(12)]
     c16_code_id_code_vbyte_be0_be (quick, "Codes::VbyteBe param 0, BE stream", "to_code_const then from_code_const: same codewords (symbolic value) / rejected when no constant exists") => code_id_code_be::<_, {VBYTE_BE}, 0>;
     #[kani::stub(alloc::fmt::format, stub_format)]
     #[kani::stub(std::string::ToString::to_string, stub_to_string)]
     #[kani::stub(std::backtrace::Backtrace::capture, stub_backtrace_capture)]
+    #[kani::stub(<anyhow::Error as core::ops::Drop>::drop, stub_anyhow_drop)]
     #[kani::stub(core::slice::memchr::memchr, stub_memchr)]
     #[kani::unwind(12)]
     c16_code_id_code_vbyte_be0_le (thorough, "Codes::VbyteBe param 0, LE stream", "to_code_const then from_code_const: same codewords (symbolic value) / rejected when no constant exists") => code_id_code_le::<_, {VBYTE_BE}, 0>;
     #[kani::stub(alloc::fmt::format, stub_format)]
     #[kani::stub(std::string::ToString::to_string, stub_to_string)]
     #[kani::stub(std::backtrace::Backtrace::capture, stub_backtrace_capture)]
+    #[kani::stub(<anyhow::Error as core::ops::Drop>::drop, stub_anyhow_drop)]
     #[kani::stub(core::slice::memchr::memchr, stub_memchr)]
     #[kani::unwind(12)]
     c16_code_id_code_vbyte_le0_be (quick, "Codes::VbyteLe param 0, BE stream", "to_code_const then from_code_const: same codewords (symbolic value) / rejected when no constant exists") => code_id_code_be::<_, {VBYTE_LE}, 0>;
     #[kani::stub(alloc::fmt::format, stub_format)]
     #[kani::stub(std::string::ToString::to_string, stub_to_string)]
     #[kani::stub(std::backtrace::Backtrace::capture, stub_backtrace_capture)]
+    #[kani::stub(<anyhow::Error as core::ops::Drop>::drop, stub_anyhow_drop)]
     #[kani::stub(core::slice::memchr::memchr, stub_memchr)]
     #[kani::unwind(12)]
     c16_code_id_code_vbyte_le0_le (thorough, "Codes::VbyteLe param 0, LE stream", "to_code_const then from_code_const: same codewords (symbolic value) / rejected when no constant exists") => code_id_code_le::<_, {VBYTE_LE}, 0>;
     #[kani::stub(alloc::fmt::format, stub_format)]
     #[kani::stub(std::string::ToString::to_string, stub_to_string)]
     #[kani::stub(std::backtrace::Backtrace::capture, stub_backtrace_capture)]
+    #[kani::stub(<anyhow::Error as core::ops::Drop>::drop, stub_anyhow_drop)]
     #[kani::stub(core::slice::memchr::memchr, stub_memchr)]
     #[kani::unwind(12)]
     c16_code_id_code_zeta1_be (quick, "Codes::Zeta param 1, BE stream", "to_code_const then from_code_const: same codewords (symbolic value) / rejected when no constant exists") => code_id_code_be::<_, {ZETA}, 1>;
     #[kani::stub(alloc::fmt::format, stub_format)]
     #[kani::stub(std::string::ToString::to_string, stub_to_string)]
     #[kani::stub(std::backtrace::Backtrace::capture, stub_backtrace_capture)]
+    #[kani::stub(<anyhow::Error as core::ops::Drop>::drop, stub_anyhow_drop)]
     #[kani::stub(core::slice::memchr::memchr, stub_memchr)]
     #[kani::unwind(12)]
     c16_code_id_code_zeta1_le (thorough, "Codes::Zeta param 1, LE stream", "to_code_const then from_code_const: same codewords (symbolic value) / rejected when no constant exists") => code_id_code_le::<_, {ZETA}, 1>;
     #[kani::stub(alloc::fmt::format, stub_format)]
     #[kani::stub(std::string::ToString::to_string, stub_to_string)]
     #[kani::stub(std::backtrace::Backtrace::capture, stub_backtrace_capture)]
+    #[kani::stub(<anyhow::Error as core::ops::Drop>::drop, stub_anyhow_drop)]
     #[kani::stub(core::slice::memchr::memchr, stub_memchr)]
     #[kani::unwind(12)]
     c16_code_id_code_zeta2_be (thorough, "Codes::Zeta param 2, BE stream", "to_code_const then from_code_const: same codewords (symbolic value) / rejected when no constant exists") => code_id_code_be::<_, {ZETA}, 2>;
     #[kani::stub(alloc::fmt::format, stub_format)]
     #[kani::stub(std::string::ToString::to_string, stub_to_string)]
     #[kani::stub(std::backtrace::Backtrace::capture, stub_backtrace_capture)]
+    #[kani::stub(<anyhow::Error as core::ops::Drop>::drop, stub_anyhow_drop)]
     #[kani::stub(core::slice::memchr::memchr, stub_memchr)]
     #[kani::unwind(12)]
     c16_code_id_code_zeta2_le (thorough, "Codes::Zeta param 2, LE stream", "to_code_const then from_code_const: same codewords (symbolic value) / rejected when no constant exists") => code_id_code_le::<_, {ZETA}, 2>;
     #[kani::stub(alloc::fmt::format, stub_format)]
     #[kani::stub(std::string::ToString::to_string, stub_to_string)]
     #[kani::stub(std::backtrace::Backtrace::capture, stub_backtrace_capture)]
+    #[kani::stub(<anyhow::Error as core::ops::Drop>::drop, stub_anyhow_drop)]
     #[kani::stub(core::slice::memchr::memchr, stub_memchr)]
     #[kani::unwind(12)]
     c16_code_id_code_zeta3_be (quick, "Codes::Zeta param 3, BE stream", "to_code_const then from_code_const: same codewords (symbolic value) / rejected when no constant exists") => code_id_code_be::<_, {ZETA}, 3>;
     #[kani::stub(alloc::fmt::format, stub_format)]
     #[kani::stub(std::string::ToString::to_string, stub_to_string)]
     #[kani::stub(std::backtrace::Backtrace::capture, stub_backtrace_capture)]
+    #[kani::stub(<anyhow::Error as core::ops::Drop>::drop, stub_anyhow_drop)]
     #[kani::stub(core::slice::memchr::memchr, stub_memchr)]
     #[kani::unwind(12)]
     c16_code_id_code_zeta3_le (thorough, "Codes::Zeta param 3, LE stream", "to_code_const then from_code_const: same codewords (symbolic value) / rejected when no constant exists") => code_id_code_le::<_, {ZETA}, 3>;
     #[kani::stub(alloc::fmt::format, stub_format)]
     #[kani::stub(std::string::ToString::to_string, stub_to_string)]
     #[kani::stub(std::backtrace::Backtrace::capture, stub_backtrace_capture)]
+    #[kani::stub(<anyhow::Error as core::ops::Drop>::drop, stub_anyhow_drop)]
     #[kani::stub(core::slice::memchr::memchr, stub_memchr)]
     #[kani::unwind(12)]
     c16_code_id_code_zeta4_be (thorough, "Codes::Zeta param 4, BE stream", "to_code_const then from_code_const: same codewords (symbolic value) / rejected when no constant exists") => code_id_code_be::<_, {ZETA}, 4>;
     #[kani::stub(alloc::fmt::format, stub_format)]
     #[kani::stub(std::string::ToString::to_string, stub_to_string)]
     #[kani::stub(std::backtrace::Backtrace::capture, stub_backtrace_capture)]
+    #[kani::stub(<anyhow::Error as core::ops::Drop>::drop, stub_anyhow_drop)]
     #[kani::stub(core::slice::memchr::memchr, stub_memchr)]
     #[kani::unwind(12)]
     c16_code_id_code_zeta4_le (thorough, "Codes::Zeta param 4, LE stream", "to_code_const then from_code_const: same codewords (symbolic value) / rejected when no constant exists") => code_id_code_le::<_, {ZETA}, 4>;
     #[kani::stub(alloc::fmt::format, stub_format)]
     #[kani::stub(std::string::ToString::to_string, stub_to_string)]
     #[kani::stub(std::backtrace::Backtrace::capture, stub_backtrace_capture)]
+    #[kani::stub(<anyhow::Error as core::ops::Drop>::drop, stub_anyhow_drop)]
     #[kani::stub(core::slice::memchr::memchr, stub_memchr)]
     #[kani::unwind(12)]
     c16_code_id_code_zeta5_be (thorough, "Codes::Zeta param 5, BE stream", "to_code_const then from_code_const: same codewords (symbolic value) / rejected when no constant exists") => code_id_code_be::<_, {ZETA}, 5>;
     #[kani::stub(alloc::fmt::format, stub_format)]
     #[kani::stub(std::string::ToString::to_string, stub_to_string)]
     #[kani::stub(std::backtrace::Backtrace::capture, stub_backtrace_capture)]
+    #[kani::stub(<anyhow::Error as core::ops::Drop>::drop, stub_anyhow_drop)]
     #[kani::stub(core::slice::memchr::memchr, stub_memchr)]
     #[kani::unwind(12)]
     c16_code_id_code_zeta5_le (thorough, "Codes::Zeta param 5, LE stream", "to_code_const then from_code_const: same codewords (symbolic value) / rejected when no constant exists") => code_id_code_le::<_, {ZETA}, 5>;
     #[kani::stub(alloc::fmt::format, stub_format)]
     #[kani::stub(std::string::ToString::to_string, stub_to_string)]
     #[kani::stub(std::backtrace::Backtrace::capture, stub_backtrace_capture)]
+    #[kani::stub(<anyhow::Error as core::ops::Drop>::drop, stub_anyhow_drop)]
     #[kani::stub(core::slice::memchr::memchr, stub_memchr)]
     #[kani::unwind(12)]
     c16_code_id_code_zeta6_be (thorough, "Codes::Zeta param 6, BE stream", "to_code_const then from_code_const: same codewords (symbolic value) / rejected when no constant exists") => code_id_code_be::<_, {ZETA}, 6>;
     #[kani::stub(alloc::fmt::format, stub_format)]
     #[kani::stub(std::string::ToString::to_string, stub_to_string)]
     #[kani::stub(std::backtrace::Backtrace::capture, stub_backtrace_capture)]
+    #[kani::stub(<anyhow::Error as core::ops::Drop>::drop, stub_anyhow_drop)]
     #[kani::stub(core::slice::memchr::memchr, stub_memchr)]
     #[kani::unwind(12)]
     c16_code_id_code_zeta6_le (thorough, "Codes::Zeta param 6, LE stream", "to_code_const then from_code_const: same codewords (symbolic value) / rejected when no constant exists") => code_id_code_le::<_, {ZETA}, 6>;
     #[kani::stub(alloc::fmt::format, stub_format)]
     #[kani::stub(std::string::ToString::to_string, stub_to_string)]
     #[kani::stub(std::backtrace::Backtrace::capture, stub_backtrace_capture)]
+    #[kani::stub(<anyhow::Error as core::ops::Drop>::drop, stub_anyhow_drop)]
     #[kani::stub(core::slice::memchr::memchr, stub_memchr)]
     #[kani::unwind(12)]
     c16_code_id_code_zeta7_be (thorough, "Codes::Zeta param 7, BE stream", "to_code_const then from_code_const: same codewords (symbolic value) / rejected when no constant exists") => code_id_code_be::<_, {ZETA}, 7>;
     #[kani::stub(alloc::fmt::format, stub_format)]
     #[kani::stub(std::string::ToString::to_string, stub_to_string)]
     #[kani::stub(std::backtrace::Backtrace::capture, stub_backtrace_capture)]
+    #[kani::stub(<anyhow::Error as core::ops::Drop>::drop, stub_anyhow_drop)]
     #[kani::stub(core::slice::memchr::memchr, stub_memchr)]
     #[kani::unwind(12)]
     c16_code_id_code_zeta7_le (thorough, "Codes::Zeta param 7, LE stream", "to_code_const then from_code_const: same codewords (symbolic value) / rejected when no constant exists") => code_id_code_le::<_, {ZETA}, 7>;
     #[kani::stub(alloc::fmt::format, stub_format)]
     #[kani::stub(std::string::ToString::to_string, stub_to_string)]
     #[kani::stub(std::backtrace::Backtrace::capture, stub_backtrace_capture)]
+    #[kani::stub(<anyhow::Error as core::ops::Drop>::drop, stub_anyhow_drop)]
     #[kani::stub(core::slice::memchr::memchr, stub_memchr)]
     #[kani::unwind(12)]
     c16_code_id_code_zeta8_be (thorough, "Codes::Zeta param 8, BE stream", "to_code_const then from_code_const: same codewords (symbolic value) / rejected when no constant exists") => code_id_code_be::<_, {ZETA}, 8>;
     #[kani::stub(alloc::fmt::format, stub_format)]
     #[kani::stub(std::string::ToString::to_string, stub_to_string)]
     #[kani::stub(std::backtrace::Backtrace::capture, stub_backtrace_capture)]
+    #[kani::stub(<anyhow::Error as core::ops::Drop>::drop, stub_anyhow_drop)]
     #[kani::stub(core::slice::memchr::memchr, stub_memchr)]
     #[kani::unwind(12)]
     c16_code_id_code_zeta8_le (thorough, "Codes::Zeta param 8, LE stream", "to_code_const then from_code_const: same codewords (symbolic value) / rejected when no constant exists") => code_id_code_le::<_, {ZETA}, 8>;
     #[kani::stub(alloc::fmt::format, stub_format)]
     #[kani::stub(std::string::ToString::to_string, stub_to_string)]
     #[kani::stub(std::backtrace::Backtrace::capture, stub_backtrace_capture)]
+    #[kani::stub(<anyhow::Error as core::ops::Drop>::drop, stub_anyhow_drop)]
     #[kani::stub(core::slice::memchr::memchr, stub_memchr)]
     #[kani::unwind(12)]
     c16_code_id_code_zeta9_be (thorough, "Codes::Zeta param 9, BE stream", "to_code_const then from_code_const: same codewords (symbolic value) / rejected when no constant exists") => code_id_code_be::<_, {ZETA}, 9>;
     #[kani::stub(alloc::fmt::format, stub_format)]
     #[kani::stub(std::string::ToString::to_string, stub_to_string)]
     #[kani::stub(std::backtrace::Backtrace::capture, stub_backtrace_capture)]
+    #[kani::stub(<anyhow::Error as core::ops::Drop>::drop, stub_anyhow_drop)]
     #[kani::stub(core::slice::memchr::memchr, stub_memchr)]
     #[kani::unwind(12)]
     c16_code_id_code_zeta9_le (thorough, "Codes::Zeta param 9, LE stream", "to_code_const then from_code_const: same codewords (symbolic value) / rejected when no constant exists") => code_id_code_le::<_, {ZETA}, 9>;
     #[kani::stub(alloc::fmt::format, stub_format)]
     #[kani::stub(std::string::ToString::to_string, stub_to_string)]
     #[kani::stub(std::backtrace::Backtrace::capture, stub_backtrace_capture)]
+    #[kani::stub(<anyhow::Error as core::ops::Drop>::drop, stub_anyhow_drop)]
     #[kani::stub(core::slice::memchr::memchr, stub_memchr)]
     #[kani::unwind(12)]
     c16_code_id_code_zeta10_be (quick, "Codes::Zeta param 10, BE stream", "to_code_const then from_code_const: same codewords (symbolic value) / rejected when no constant exists") => code_id_code_be::<_, {ZETA}, 10>;
     #[kani::stub(alloc::fmt::format, stub_format)]
     #[kani::stub(std::string::ToString::to_string, stub_to_string)]
     #[kani::stub(std::backtrace::Backtrace::capture, stub_backtrace_capture)]
+    #[kani::stub(<anyhow::Error as core::ops::Drop>::drop, stub_anyhow_drop)]
     #[kani::stub(core::slice::memchr::memchr, stub_memchr)]
     #[kani::unwind(12)]
     c16_code_id_code_zeta10_le (thorough, "Codes::Zeta param 10, LE stream", "to_code_const then from_code_const: same codewords (symbolic value) / rejected when no constant exists") => code_id_code_le::<_, {ZETA}, 10>;
     #[kani::stub(alloc::fmt::format, stub_format)]
     #[kani::stub(std::string::ToString::to_string, stub_to_string)]
     #[kani::stub(std::backtrace::Backtrace::capture, stub_backtrace_capture)]
+    #[kani::stub(<anyhow::Error as core::ops::Drop>::drop, stub_anyhow_drop)]
     #[kani::stub(core::slice::memchr::memchr, stub_memchr)]
     #[kani::unwind(12)]
     c16_code_id_code_zeta11_be (quick, "Codes::Zeta param 11, BE stream", "to_code_const then from_code_const: same codewords (symbolic value) / rejected when no constant exists") => code_id_code_be::<_, {ZETA}, 11>;
     #[kani::stub(alloc::fmt::format, stub_format)]
     #[kani::stub(std::string::ToString::to_string, stub_to_string)]
     #[kani::stub(std::backtrace::Backtrace::capture, stub_backtrace_capture)]
+    #[kani::stub(<anyhow::Error as core::ops::Drop>::drop, stub_anyhow_drop)]
     #[kani::stub(core::slice::memchr::memchr, stub_memchr)]
     #[kani::unwind(12)]
     c16_code_id_code_zeta11_le (thorough, "Codes::Zeta param 11, LE stream", "to_code_const then from_code_const: same codewords (symbolic value) / rejected when no constant exists") => code_id_code_le::<_, {ZETA}, 11>;
     #[kani::stub(alloc::fmt::format, stub_format)]
     #[kani::stub(std::string::ToString::to_string, stub_to_string)]
     #[kani::stub(std::backtrace::Backtrace::capture, stub_backtrace_capture)]
+    #[kani::stub(<anyhow::Error as core::ops::Drop>::drop, stub_anyhow_drop)]
     #[kani::stub(core::slice::memchr::memchr, stub_memchr)]
     #[kani::unwind(12)]
     c16_code_id_code_zeta12_be (thorough, "Codes::Zeta param 12, BE stream", "to_code_const then from_code_const: same codewords (symbolic value) / rejected when no constant exists") => code_id_code_be::<_, {ZETA}, 12>;
     #[kani::stub(alloc::fmt::format, stub_format)]
     #[kani::stub(std::string::ToString::to_string, stub_to_string)]
     #[kani::stub(std::backtrace::Backtrace::capture, stub_backtrace_capture)]
+    #[kani::stub(<anyhow::Error as core::ops::Drop>::drop, stub_anyhow_drop)]
     #[kani::stub(core::slice::memchr::memchr, stub_memchr)]
     #[kani::unwind(12)]
     c16_code_id_code_zeta12_le (thorough, "Codes::Zeta param 12, LE stream", "to_code_const then from_code_const: same codewords (symbolic value) / rejected when no constant exists") => code_id_code_le::<_, {ZETA}, 12>;
     #[kani::stub(alloc::fmt::format, stub_format)]
     #[kani::stub(std::string::ToString::to_string, stub_to_string)]
     #[kani::stub(std::backtrace::Backtrace::capture, stub_backtrace_capture)]
+    #[kani::stub(<anyhow::Error as core::ops::Drop>::drop, stub_anyhow_drop)]
     #[kani::stub(core::slice::memchr::memchr, stub_memchr)]
     #[kani::unwind(12)]
     c16_code_id_code_pi0_be (quick, "Codes::Pi param 0, BE stream", "to_code_const then from_code_const: same codewords (symbolic value) / rejected when no constant exists") => code_id_code_be::<_, {PI}, 0>;
     #[kani::stub(alloc::fmt::format, stub_format)]
     #[kani::stub(std::string::ToString::to_string, stub_to_string)]
     #[kani::stub(std::backtrace::Backtrace::capture, stub_backtrace_capture)]
+    #[kani::stub(<anyhow::Error as core::ops::Drop>::drop, stub_anyhow_drop)]
     #[kani::stub(core::slice::memchr::memchr, stub_memchr)]
     #[kani::unwind(12)]
     c16_code_id_code_pi0_le (thorough, "Codes::Pi param 0, LE stream", "to_code_const then from_code_const: same codewords (symbolic value) / rejected when no constant exists") => code_id_code_le::<_, {PI}, 0>;
     #[kani::stub(alloc::fmt::format, stub_format)]
     #[kani::stub(std::string::ToString::to_string, stub_to_string)]
     #[kani::stub(std::backtrace::Backtrace::capture, stub_backtrace_capture)]
+    #[kani::stub(<anyhow::Error as core::ops::Drop>::drop, stub_anyhow_drop)]
     #[kani::stub(core::slice::memchr::memchr, stub_memchr)]
     #[kani::unwind(12)]
     c16_code_id_code_pi1_be (quick, "Codes::Pi param 1, BE stream", "to_code_const then from_code_const: same codewords (symbolic value) / rejected when no constant exists") => code_id_code_be::<_, {PI}, 1>;
     #[kani::stub(alloc::fmt::format, stub_format)]
     #[kani::stub(std::string::ToString::to_string, stub_to_string)]
     #[kani::stub(std::backtrace::Backtrace::capture, stub_backtrace_capture)]
+    #[kani::stub(<anyhow::Error as core::ops::Drop>::drop, stub_anyhow_drop)]
     #[kani::stub(core::slice::memchr::memchr, stub_memchr)]
     #[kani::unwind(12)]
     c16_code_id_code_pi1_le (thorough, "Codes::Pi param 1, LE stream", "to_code_const then from_code_const: same codewords (symbolic value) / rejected when no constant exists") => code_id_code_le::<_, {PI}, 1>;
     #[kani::stub(alloc::fmt::format, stub_format)]
     #[kani::stub(std::string::ToString::to_string, stub_to_string)]
     #[kani::stub(std::backtrace::Backtrace::capture, stub_backtrace_capture)]
+    #[kani::stub(<anyhow::Error as core::ops::Drop>::drop, stub_anyhow_drop)]
     #[kani::stub(core::slice::memchr::memchr, stub_memchr)]
     #[kani::unwind(12)]
     c16_code_id_code_pi2_be (thorough, "Codes::Pi param 2, BE stream", "to_code_const then from_code_const: same codewords (symbolic value) / rejected when no constant exists") => code_id_code_be::<_, {PI}, 2>;
     #[kani::stub(alloc::fmt::format, stub_format)]
     #[kani::stub(std::string::ToString::to_string, stub_to_string)]
     #[kani::stub(std::backtrace::Backtrace::capture, stub_backtrace_capture)]
+    #[kani::stub(<anyhow::Error as core::ops::Drop>::drop, stub_anyhow_drop)]
     #[kani::stub(core::slice::memchr::memchr, stub_memchr)]
     #[kani::unwind(12)]
     c16_code_id_code_pi2_le (thorough, "Codes::Pi param 2, LE stream", "to_code_const then from_code_const: same codewords (symbolic value) / rejected when no constant exists") => code_id_code_le::<_, {PI}, 2>;
     #[kani::stub(alloc::fmt::format, stub_format)]
     #[kani::stub(std::string::ToString::to_string, stub_to_string)]
     #[kani::stub(std::backtrace::Backtrace::capture, stub_backtrace_capture)]
+    #[kani::stub(<anyhow::Error as core::ops::Drop>::drop, stub_anyhow_drop)]
     #[kani::stub(core::slice::memchr::memchr, stub_memchr)]
     #[kani::unwind(12)]
     c16_code_id_code_pi3_be (thorough, "Codes::Pi param 3, BE stream", "to_code_const then from_code_const: same codewords (symbolic value) / rejected when no constant exists") => code_id_code_be::<_, {PI}, 3>;
     #[kani::stub(alloc::fmt::format, stub_format)]
     #[kani::stub(std::string::ToString::to_string, stub_to_string)]
     #[kani::stub(std::backtrace::Backtrace::capture, stub_backtrace_capture)]
+    #[kani::stub(<anyhow::Error as core::ops::Drop>::drop, stub_anyhow_drop)]
     #[kani::stub(core::slice::memchr::memchr, stub_memchr)]
     #[kani::unwind(12)]
     c16_code_id_code_pi3_le (thorough, "Codes::Pi param 3, LE stream", "to_code_const then from_code_const: same codewords (symbolic value) / rejected when no constant exists") => code_id_code_le::<_, {PI}, 3>;
     #[kani::stub(alloc::fmt::format, stub_format)]
     #[kani::stub(std::string::ToString::to_string, stub_to_string)]
     #[kani::stub(std::backtrace::Backtrace::capture, stub_backtrace_capture)]
+    #[kani::stub(<anyhow::Error as core::ops::Drop>::drop, stub_anyhow_drop)]
     #[kani::stub(core::slice::memchr::memchr, stub_memchr)]
     #[kani::unwind(12)]
     c16_code_id_code_pi4_be (thorough, "Codes::Pi param 4, BE stream", "to_code_const then from_code_const: same codewords (symbolic value) / rejected when no constant exists") => code_id_code_be::<_, {PI}, 4>;
     #[kani::stub(alloc::fmt::format, stub_format)]
     #[kani::stub(std::string::ToString::to_string, stub_to_string)]
     #[kani::stub(std::backtrace::Backtrace::capture, stub_backtrace_capture)]
+    #[kani::stub(<anyhow::Error as core::ops::Drop>::drop, stub_anyhow_drop)]
     #[kani::stub(core::slice::memchr::memchr, stub_memchr)]
     #[kani::unwind(12)]
     c16_code_id_code_pi4_le (thorough, "Codes::Pi param 4, LE stream", "to_code_const then from_code_const: same codewords (symbolic value) / rejected when no constant exists") => code_id_code_le::<_, {PI}, 4>;
     #[kani::stub(alloc::fmt::format, stub_format)]
     #[kani::stub(std::string::ToString::to_string, stub_to_string)]
     #[kani::stub(std::backtrace::Backtrace::capture, stub_backtrace_capture)]
+    #[kani::stub(<anyhow::Error as core::ops::Drop>::drop, stub_anyhow_drop)]
     #[kani::stub(core::slice::memchr::memchr, stub_memchr)]
     #[kani::unwind(12)]
     c16_code_id_code_pi5_be (thorough, "Codes::Pi param 5, BE stream", "to_code_const then from_code_const: same codewords (symbolic value) / rejected when no constant exists") => code_id_code_be::<_, {PI}, 5>;
     #[kani::stub(alloc::fmt::format, stub_format)]
     #[kani::stub(std::string::ToString::to_string, stub_to_string)]
     #[kani::stub(std::backtrace::Backtrace::capture, stub_backtrace_capture)]
+    #[kani::stub(<anyhow::Error as core::ops::Drop>::drop, stub_anyhow_drop)]
     #[kani::stub(core::slice::memchr::memchr, stub_memchr)]
     #[kani::unwind(12)]
     c16_code_id_code_pi5_le (thorough, "Codes::Pi param 5, LE stream", "to_code_const then from_code_const: same codewords (symbolic value) / rejected when no constant exists") => code_id_code_le::<_, {PI}, 5>;
     #[kani::stub(alloc::fmt::format, stub_format)]
     #[kani::stub(std::string::ToString::to_string, stub_to_string)]
     #[kani::stub(std::backtrace::Backtrace::capture, stub_backtrace_capture)]
+    #[kani::stub(<anyhow::Error as core::ops::Drop>::drop, stub_anyhow_drop)]
     #[kani::stub(core::slice::memchr::memchr, stub_memchr)]
     #[kani::unwind(12)]
     c16_code_id_code_pi6_be (thorough, "Codes::Pi param 6, BE stream", "to_code_const then from_code_const: same codewords (symbolic value) / rejected when no constant exists") => code_id_code_be::<_, {PI}, 6>;
     #[kani::stub(alloc::fmt::format, stub_format)]
     #[kani::stub(std::string::ToString::to_string, stub_to_string)]
     #[kani::stub(std::backtrace::Backtrace::capture, stub_backtrace_capture)]
+    #[kani::stub(<anyhow::Error as core::ops::Drop>::drop, stub_anyhow_drop)]
     #[kani::stub(core::slice::memchr::memchr, stub_memchr)]
     #[kani::unwind(12)]
     c16_code_id_code_pi6_le (thorough, "Codes::Pi param 6, LE stream", "to_code_const then from_code_const: same codewords (symbolic value) / rejected when no constant exists") => code_id_code_le::<_, {PI}, 6>;
     #[kani::stub(alloc::fmt::format, stub_format)]
     #[kani::stub(std::string::ToString::to_string, stub_to_string)]
     #[kani::stub(std::backtrace::Backtrace::capture, stub_backtrace_capture)]
+    #[kani::stub(<anyhow::Error as core::ops::Drop>::drop, stub_anyhow_drop)]
     #[kani::stub(core::slice::memchr::memchr, stub_memchr)]
     #[kani::unwind(12)]
     c16_code_id_code_pi7_be (thorough, "Codes::Pi param 7, BE stream", "to_code_const then from_code_const: same codewords (symbolic value) / rejected when no constant exists") => code_id_code_be::<_, {PI}, 7>;
     #[kani::stub(alloc::fmt::format, stub_format)]
     #[kani::stub(std::string::ToString::to_string, stub_to_string)]
     #[kani::stub(std::backtrace::Backtrace::capture, stub_backtrace_capture)]
+    #[kani::stub(<anyhow::Error as core::ops::Drop>::drop, stub_anyhow_drop)]
     #[kani::stub(core::slice::memchr::memchr, stub_memchr)]
     #[kani::unwind(12)]
     c16_code_id_code_pi7_le (thorough, "Codes::Pi param 7, LE stream", "to_code_const then from_code_const: same codewords (symbolic value) / rejected when no constant exists") => code_id_code_le::<_, {PI}, 7>;
     #[kani::stub(alloc::fmt::format, stub_format)]
     #[kani::stub(std::string::ToString::to_string, stub_to_string)]
     #[kani::stub(std::backtrace::Backtrace::capture, stub_backtrace_capture)]
+    #[kani::stub(<anyhow::Error as core::ops::Drop>::drop, stub_anyhow_drop)]
     #[kani::stub(core::slice::memchr::memchr, stub_memchr)]
     #[kani::unwind(12)]
     c16_code_id_code_pi8_be (thorough, "Codes::Pi param 8, BE stream", "to_code_const then from_code_const: same codewords (symbolic value) / rejected when no constant exists") => code_id_code_be::<_, {PI}, 8>;
     #[kani::stub(alloc::fmt::format, stub_format)]
     #[kani::stub(std::string::ToString::to_string, stub_to_string)]
     #[kani::stub(std::backtrace::Backtrace::capture, stub_backtrace_capture)]
+    #[kani::stub(<anyhow::Error as core::ops::Drop>::drop, stub_anyhow_drop)]
     #[kani::stub(core::slice::memchr::memchr, stub_memchr)]
     #[kani::unwind(12)]
     c16_code_id_code_pi8_le (thorough, "Codes::Pi param 8, LE stream", "to_code_const then from_code_const: same codewords (symbolic value) / rejected when no constant exists") => code_id_code_le::<_, {PI}, 8>;
     #[kani::stub(alloc::fmt::format, stub_format)]
     #[kani::stub(std::string::ToString::to_string, stub_to_string)]
     #[kani::stub(std::backtrace::Backtrace::capture, stub_backtrace_capture)]
+    #[kani::stub(<anyhow::Error as core::ops::Drop>::drop, stub_anyhow_drop)]
     #[kani::stub(core::slice::memchr::memchr, stub_memchr)]
     #[kani::unwind(12)]
     c16_code_id_code_pi9_be (thorough, "Codes::Pi param 9, BE stream", "to_code_const then from_code_const: same codewords (symbolic value) / rejected when no constant exists") => code_id_code_be::<_, {PI}, 9>;
     #[kani::stub(alloc::fmt::format, stub_format)]
     #[kani::stub(std::string::ToString::to_string, stub_to_string)]
     #[kani::stub(std::backtrace::Backtrace::capture, stub_backtrace_capture)]
+    #[kani::stub(<anyhow::Error as core::ops::Drop>::drop, stub_anyhow_drop)]
     #[kani::stub(core::slice::memchr::memchr, stub_memchr)]
     #[kani::unwind(12)]
     c16_code_id_code_pi9_le (thorough, "Codes::Pi param 9, LE stream", "to_code_const then from_code_const: same codewords (symbolic value) / rejected when no constant exists") => code_id_code_le::<_, {PI}, 9>;
     #[kani::stub(alloc::fmt::format, stub_format)]
     #[kani::stub(std::string::ToString::to_string, stub_to_string)]
     #[kani::stub(std::backtrace::Backtrace::capture, stub_backtrace_capture)]
+    #[kani::stub(<anyhow::Error as core::ops::Drop>::drop, stub_anyhow_drop)]
     #[kani::stub(core::slice::memchr::memchr, stub_memchr)]
     #[kani::unwind(12)]
     c16_code_id_code_pi10_be (thorough, "Codes::Pi param 10, BE stream", "to_code_const then from_code_const: same codewords (symbolic value) / rejected when no constant exists") => code_id_code_be::<_, {PI}, 10>;
     #[kani::stub(alloc::fmt::format, stub_format)]
     #[kani::stub(std::string::ToString::to_string, stub_to_string)]
     #[kani::stub(std::backtrace::Backtrace::capture, stub_backtrace_capture)]
+    #[kani::stub(<anyhow::Error as core::ops::Drop>::drop, stub_anyhow_drop)]
     #[kani::stub(core::slice::memchr::memchr, stub_memchr)]
     #[kani::unwind(12)]
     c16_code_id_code_pi10_le (thorough, "Codes::Pi param 10, LE stream", "to_code_const then from_code_const: same codewords (symbolic value) / rejected when no constant exists") => code_id_code_le::<_, {PI}, 10>;
     #[kani::stub(alloc::fmt::format, stub_format)]
     #[kani::stub(std::string::ToString::to_string, stub_to_string)]
     #[kani::stub(std::backtrace::Backtrace::capture, stub_backtrace_capture)]
+    #[kani::stub(<anyhow::Error as core::ops::Drop>::drop, stub_anyhow_drop)]
     #[kani::stub(core::slice::memchr::memchr, stub_memchr)]
     #[kani::unwind(12)]
     c16_code_id_code_pi11_be (quick, "Codes::Pi param 11, BE stream", "to_code_const then from_code_const: same codewords (symbolic value) / rejected when no constant exists") => code_id_code_be::<_, {PI}, 11>;
     #[kani::stub(alloc::fmt::format, stub_format)]
     #[kani::stub(std::string::ToString::to_string, stub_to_string)]
     #[kani::stub(std::backtrace::Backtrace::capture, stub_backtrace_capture)]
+    #[kani::stub(<anyhow::Error as core::ops::Drop>::drop, stub_anyhow_drop)]
     #[kani::stub(core::slice::memchr::memchr, stub_memchr)]
     #[kani::unwind(12)]
     c16_code_id_code_pi11_le (thorough, "Codes::Pi param 11, LE stream", "to_code_const then from_code_const: same codewords (symbolic value) / rejected when no constant exists") => code_id_code_le::<_, {PI}, 11>;
     #[kani::stub(alloc::fmt::format, stub_format)]
     #[kani::stub(std::string::ToString::to_string, stub_to_string)]
     #[kani::stub(std::backtrace::Backtrace::capture, stub_backtrace_capture)]
+    #[kani::stub(<anyhow::Error as core::ops::Drop>::drop, stub_anyhow_drop)]
     #[kani::stub(core::slice::memchr::memchr, stub_memchr)]
     #[kani::unwind(12)]
     c16_code_id_code_pi12_be (thorough, "Codes::Pi param 12, BE stream", "to_code_const then from_code_const: same codewords (symbolic value) / rejected when no constant exists") => code_id_code_be::<_, {PI}, 12>;
     #[kani::stub(alloc::fmt::format, stub_format)]
     #[kani::stub(std::string::ToString::to_string, stub_to_string)]
     #[kani::stub(std::backtrace::Backtrace::capture, stub_backtrace_capture)]
+    #[kani::stub(<anyhow::Error as core::ops::Drop>::drop, stub_anyhow_drop)]
     #[kani::stub(core::slice::memchr::memchr, stub_memchr)]
     #[kani::unwind(12)]
     c16_code_id_code_pi12_le (thorough, "Codes::Pi param 12, LE stream", "to_code_const then from_code_const: same codewords (symbolic value) / rejected when no constant exists") => code_id_code_le::<_, {PI}, 12>;
     #[kani::stub(alloc::fmt::format, stub_format)]
     #[kani::stub(std::string::ToString::to_string, stub_to_string)]
     #[kani::stub(std::backtrace::Backtrace::capture, stub_backtrace_capture)]
+    #[kani::stub(<anyhow::Error as core::ops::Drop>::drop, stub_anyhow_drop)]
     #[kani::stub(core::slice::memchr::memchr, stub_memchr)]
     #[kani::unwind(12)]
     c16_code_id_code_golomb1_be (quick, "Codes::Golomb param 1, BE stream", "to_code_const then from_code_const: same codewords (symbolic value) / rejected when no constant exists") => code_id_code_be::<_, {GOLOMB}, 1>;
     #[kani::stub(alloc::fmt::format, stub_format)]
     #[kani::stub(std::string::ToString::to_string, stub_to_string)]
     #[kani::stub(std::backtrace::Backtrace::capture, stub_backtrace_capture)]
+    #[kani::stub(<anyhow::Error as core::ops::Drop>::drop, stub_anyhow_drop)]
     #[kani::stub(core::slice::memchr::memchr, stub_memchr)]
     #[kani::unwind(12)]
     c16_code_id_code_golomb1_le (thorough, "Codes::Golomb param 1, LE stream", "to_code_const then from_code_const: same codewords (symbolic value) / rejected when no constant exists") => code_id_code_le::<_, {GOLOMB}, 1>;
     #[kani::stub(alloc::fmt::format, stub_format)]
     #[kani::stub(std::string::ToString::to_string, stub_to_string)]
     #[kani::stub(std::backtrace::Backtrace::capture, stub_backtrace_capture)]
+    #[kani::stub(<anyhow::Error as core::ops::Drop>::drop, stub_anyhow_drop)]
     #[kani::stub(core::slice::memchr::memchr, stub_memchr)]
     #[kani::unwind(12)]
     c16_code_id_code_golomb2_be (quick, "Codes::Golomb param 2, BE stream", "to_code_const then from_code_const: same codewords (symbolic value) / rejected when no constant exists") => code_id_code_be::<_, {GOLOMB}, 2>;
     #[kani::stub(alloc::fmt::format, stub_format)]
     #[kani::stub(std::string::ToString::to_string, stub_to_string)]
     #[kani::stub(std::backtrace::Backtrace::capture, stub_backtrace_capture)]
+    #[kani::stub(<anyhow::Error as core::ops::Drop>::drop, stub_anyhow_drop)]
     #[kani::stub(core::slice::memchr::memchr, stub_memchr)]
     #[kani::unwind(12)]
     c16_code_id_code_golomb2_le (thorough, "Codes::Golomb param 2, LE stream", "to_code_const then from_code_const: same codewords (symbolic value) / rejected when no constant exists") => code_id_code_le::<_, {GOLOMB}, 2>;
     #[kani::stub(alloc::fmt::format, stub_format)]
     #[kani::stub(std::string::ToString::to_string, stub_to_string)]
     #[kani::stub(std::backtrace::Backtrace::capture, stub_backtrace_capture)]
+    #[kani::stub(<anyhow::Error as core::ops::Drop>::drop, stub_anyhow_drop)]
     #[kani::stub(core::slice::memchr::memchr, stub_memchr)]
     #[kani::unwind(12)]
     c16_code_id_code_golomb3_be (thorough, "Codes::Golomb param 3, BE stream", "to_code_const then from_code_const: same codewords (symbolic value) / rejected when no constant exists") => code_id_code_be::<_, {GOLOMB}, 3>;
     #[kani::stub(alloc::fmt::format, stub_format)]
     #[kani::stub(std::string::ToString::to_string, stub_to_string)]
     #[kani::stub(std::backtrace::Backtrace::capture, stub_backtrace_capture)]
+    #[kani::stub(<anyhow::Error as core::ops::Drop>::drop, stub_anyhow_drop)]
     #[kani::stub(core::slice::memchr::memchr, stub_memchr)]
     #[kani::unwind(12)]
     c16_code_id_code_golomb3_le (thorough, "Codes::Golomb param 3, LE stream", "to_code_const then from_code_const: same codewords (symbolic value) / rejected when no constant exists") => code_id_code_le::<_, {GOLOMB}, 3>;
     #[kani::stub(alloc::fmt::format, stub_format)]
     #[kani::stub(std::string::ToString::to_string, stub_to_string)]
     #[kani::stub(std::backtrace::Backtrace::capture, stub_backtrace_capture)]
+    #[kani::stub(<anyhow::Error as core::ops::Drop>::drop, stub_anyhow_drop)]
     #[kani::stub(core::slice::memchr::memchr, stub_memchr)]
     #[kani::unwind(12)]
     c16_code_id_code_golomb4_be (thorough, "Codes::Golomb param 4, BE stream", "to_code_const then from_code_const: same codewords (symbolic value) / rejected when no constant exists") => code_id_code_be::<_, {GOLOMB}, 4>;
     #[kani::stub(alloc::fmt::format, stub_format)]
     #[kani::stub(std::string::ToString::to_string, stub_to_string)]
     #[kani::stub(std::backtrace::Backtrace::capture, stub_backtrace_capture)]
+    #[kani::stub(<anyhow::Error as core::ops::Drop>::drop, stub_anyhow_drop)]
     #[kani::stub(core::slice::memchr::memchr, stub_memchr)]
     #[kani::unwind(12)]
     c16_code_id_code_golomb4_le (thorough, "Codes::Golomb param 4, LE stream", "to_code_const then from_code_const: same codewords (symbolic value) / rejected when no constant exists") => code_id_code_le::<_, {GOLOMB}, 4>;
     #[kani::stub(alloc::fmt::format, stub_format)]
     #[kani::stub(std::string::ToString::to_string, stub_to_string)]
     #[kani::stub(std::backtrace::Backtrace::capture, stub_backtrace_capture)]
+    #[kani::stub(<anyhow::Error as core::ops::Drop>::drop, stub_anyhow_drop)]
     #[kani::stub(core::slice::memchr::memchr, stub_memchr)]
     #[kani::unwind(12)]
     c16_code_id_code_golomb5_be (thorough, "Codes::Golomb param 5, BE stream", "to_code_const then from_code_const: same codewords (symbolic value) / rejected when no constant exists") => code_id_code_be::<_, {GOLOMB}, 5>;
     #[kani::stub(alloc::fmt::format, stub_format)]
     #[kani::stub(std::string::ToString::to_string, stub_to_string)]
     #[kani::stub(std::backtrace::Backtrace::capture, stub_backtrace_capture)]
+    #[kani::stub(<anyhow::Error as core::ops::Drop>::drop, stub_anyhow_drop)]
     #[kani::stub(core::slice::memchr::memchr, stub_memchr)]
     #[kani::unwind(12)]
     c16_code_id_code_golomb5_le (thorough, "Codes::Golomb param 5, LE stream", "to_code_const then from_code_const: same codewords (symbolic value) / rejected when no constant exists") => code_id_code_le::<_, {GOLOMB}, 5>;
     #[kani::stub(alloc::fmt::format, stub_format)]
     #[kani::stub(std::string::ToString::to_string, stub_to_string)]
     #[kani::stub(std::backtrace::Backtrace::capture, stub_backtrace_capture)]
+    #[kani::stub(<anyhow::Error as core::ops::Drop>::drop, stub_anyhow_drop)]
     #[kani::stub(core::slice::memchr::memchr, stub_memchr)]
     #[kani::unwind(12)]
     c16_code_id_code_golomb6_be (thorough, "Codes::Golomb param 6, BE stream", "to_code_const then from_code_const: same codewords (symbolic value) / rejected when no constant exists") => code_id_code_be::<_, {GOLOMB}, 6>;
     #[kani::stub(alloc::fmt::format, stub_format)]
     #[kani::stub(std::string::ToString::to_string, stub_to_string)]
     #[kani::stub(std::backtrace::Backtrace::capture, stub_backtrace_capture)]
+    #[kani::stub(<anyhow::Error as core::ops::Drop>::drop, stub_anyhow_drop)]
     #[kani::stub(core::slice::memchr::memchr, stub_memchr)]
     #[kani::unwind(12)]
     c16_code_id_code_golomb6_le (thorough, "Codes::Golomb param 6, LE stream", "to_code_const then from_code_const: same codewords (symbolic value) / rejected when no constant exists") => code_id_code_le::<_, {GOLOMB}, 6>;
     #[kani::stub(alloc::fmt::format, stub_format)]
     #[kani::stub(std::string::ToString::to_string, stub_to_string)]
     #[kani::stub(std::backtrace::Backtrace::capture, stub_backtrace_capture)]
+    #[kani::stub(<anyhow::Error as core::ops::Drop>::drop, stub_anyhow_drop)]
     #[kani::stub(core::slice::memchr::memchr, stub_memchr)]
     #[kani::unwind(12)]
     c16_code_id_code_golomb7_be (thorough, "Codes::Golomb param 7, BE stream", "to_code_const then from_code_const: same codewords (symbolic value) / rejected when no constant exists") => code_id_code_be::<_, {GOLOMB}, 7>;
     #[kani::stub(alloc::fmt::format, stub_format)]
     #[kani::stub(std::string::ToString::to_string, stub_to_string)]
     #[kani::stub(std::backtrace::Backtrace::capture, stub_backtrace_capture)]
+    #[kani::stub(<anyhow::Error as core::ops::Drop>::drop, stub_anyhow_drop)]
     #[kani::stub(core::slice::memchr::memchr, stub_memchr)]
     #[kani::unwind(12)]
     c16_code_id_code_golomb7_le (thorough, "Codes::Golomb param 7, LE stream", "to_code_const then from_code_const: same codewords (symbolic value) / rejected when no constant exists") => code_id_code_le::<_, {GOLOMB}, 7>;
     #[kani::stub(alloc::fmt::format, stub_format)]
     #[kani::stub(std::string::ToString::to_string, stub_to_string)]
     #[kani::stub(std::backtrace::Backtrace::capture, stub_backtrace_capture)]
+    #[kani::stub(<anyhow::Error as core::ops::Drop>::drop, stub_anyhow_drop)]
     #[kani::stub(core::slice::memchr::memchr, stub_memchr)]
     #[kani::unwind(12)]
     c16_code_id_code_golomb8_be (quick, "Codes::Golomb param 8, BE stream", "to_code_const then from_code_const: same codewords (symbolic value) / rejected when no constant exists") => code_id_code_be::<_, {GOLOMB}, 8>;
     #[kani::stub(alloc::fmt::format, stub_format)]
     #[kani::stub(std::string::ToString::to_string, stub_to_string)]
     #[kani::stub(std::backtrace::Backtrace::capture, stub_backtrace_capture)]
+    #[kani::stub(<anyhow::Error as core::ops::Drop>::drop, stub_anyhow_drop)]
     #[kani::stub(core::slice::memchr::memchr, stub_memchr)]
     #[kani::unwind(12)]
     c16_code_id_code_golomb8_le (thorough, "Codes::Golomb param 8, LE stream", "to_code_const then from_code_const: same codewords (symbolic value) / rejected when no constant exists") => code_id_code_le::<_, {GOLOMB}, 8>;
     #[kani::stub(alloc::fmt::format, stub_format)]
     #[kani::stub(std::string::ToString::to_string, stub_to_string)]
     #[kani::stub(std::backtrace::Backtrace::capture, stub_backtrace_capture)]
+    #[kani::stub(<anyhow::Error as core::ops::Drop>::drop, stub_anyhow_drop)]
     #[kani::stub(core::slice::memchr::memchr, stub_memchr)]
     #[kani::unwind(12)]
     c16_code_id_code_golomb9_be (thorough, "Codes::Golomb param 9, BE stream", "to_code_const then from_code_const: same codewords (symbolic value) / rejected when no constant exists") => code_id_code_be::<_, {GOLOMB}, 9>;
     #[kani::stub(alloc::fmt::format, stub_format)]
     #[kani::stub(std::string::ToString::to_string, stub_to_string)]
     #[kani::stub(std::backtrace::Backtrace::capture, stub_backtrace_capture)]
+    #[kani::stub(<anyhow::Error as core::ops::Drop>::drop, stub_anyhow_drop)]
     #[kani::stub(core::slice::memchr::memchr, stub_memchr)]
     #[kani::unwind(12)]
     c16_code_id_code_golomb9_le (thorough, "Codes::Golomb param 9, LE stream", "to_code_const then from_code_const: same codewords (symbolic value) / rejected when no constant exists") => code_id_code_le::<_, {GOLOMB}, 9>;
     #[kani::stub(alloc::fmt::format, stub_format)]
     #[kani::stub(std::string::ToString::to_string, stub_to_string)]
     #[kani::stub(std::backtrace::Backtrace::capture, stub_backtrace_capture)]
+    #[kani::stub(<anyhow::Error as core::ops::Drop>::drop, stub_anyhow_drop)]
     #[kani::stub(core::slice::memchr::memchr, stub_memchr)]
     #[kani::unwind(12)]
     c16_code_id_code_golomb10_be (thorough, "Codes::Golomb param 10, BE stream", "to_code_const then from_code_const: same codewords (symbolic value) / rejected when no constant exists") => code_id_code_be::<_, {GOLOMB}, 10>;
     #[kani::stub(alloc::fmt::format, stub_format)]
     #[kani::stub(std::string::ToString::to_string, stub_to_string)]
     #[kani::stub(std::backtrace::Backtrace::capture, stub_backtrace_capture)]
+    #[kani::stub(<anyhow::Error as core::ops::Drop>::drop, stub_anyhow_drop)]
     #[kani::stub(core::slice::memchr::memchr, stub_memchr)]
     #[kani::unwind(12)]
     c16_code_id_code_golomb10_le (thorough, "Codes::Golomb param 10, LE stream", "to_code_const then from_code_const: same codewords (symbolic value) / rejected when no constant exists") => code_id_code_le::<_, {GOLOMB}, 10>;
     #[kani::stub(alloc::fmt::format, stub_format)]
     #[kani::stub(std::string::ToString::to_string, stub_to_string)]
     #[kani::stub(std::backtrace::Backtrace::capture, stub_backtrace_capture)]
+    #[kani::stub(<anyhow::Error as core::ops::Drop>::drop, stub_anyhow_drop)]
     #[kani::stub(core::slice::memchr::memchr, stub_memchr)]
     #[kani::unwind(12)]
     c16_code_id_code_golomb11_be (quick, "Codes::Golomb param 11, BE stream", "to_code_const then from_code_const: same codewords (symbolic value) / rejected when no constant exists") => code_id_code_be::<_, {GOLOMB}, 11>;
     #[kani::stub(alloc::fmt::format, stub_format)]
     #[kani::stub(std::string::ToString::to_string, stub_to_string)]
     #[kani::stub(std::backtrace::Backtrace::capture, stub_backtrace_capture)]
+    #[kani::stub(<anyhow::Error as core::ops::Drop>::drop, stub_anyhow_drop)]
     #[kani::stub(core::slice::memchr::memchr, stub_memchr)]
     #[kani::unwind(12)]
     c16_code_id_code_golomb11_le (thorough, "Codes::Golomb param 11, LE stream", "to_code_const then from_code_const: same codewords (symbolic value) / rejected when no constant exists") => code_id_code_le::<_, {GOLOMB}, 11>;
     #[kani::stub(alloc::fmt::format, stub_format)]
     #[kani::stub(std::string::ToString::to_string, stub_to_string)]
     #[kani::stub(std::backtrace::Backtrace::capture, stub_backtrace_capture)]
+    #[kani::stub(<anyhow::Error as core::ops::Drop>::drop, stub_anyhow_drop)]
     #[kani::stub(core::slice::memchr::memchr, stub_memchr)]
     #[kani::unwind(12)]
     c16_code_id_code_golomb12_be (thorough, "Codes::Golomb param 12, BE stream", "to_code_const then from_code_const: same codewords (symbolic value) / rejected when no constant exists") => code_id_code_be::<_, {GOLOMB}, 12>;
     #[kani::stub(alloc::fmt::format, stub_format)]
     #[kani::stub(std::string::ToString::to_string, stub_to_string)]
     #[kani::stub(std::backtrace::Backtrace::capture, stub_backtrace_capture)]
+    #[kani::stub(<anyhow::Error as core::ops::Drop>::drop, stub_anyhow_drop)]
     #[kani::stub(core::slice::memchr::memchr, stub_memchr)]
     #[kani::unwind(12)]
     c16_code_id_code_golomb12_le (thorough, "Codes::Golomb param 12, LE stream", "to_code_const then from_code_const: same codewords (symbolic value) / rejected when no constant exists") => code_id_code_le::<_, {GOLOMB}, 12>;
     #[kani::stub(alloc::fmt::format, stub_format)]
     #[kani::stub(std::string::ToString::to_string, stub_to_string)]
     #[kani::stub(std::backtrace::Backtrace::capture, stub_backtrace_capture)]
+    #[kani::stub(<anyhow::Error as core::ops::Drop>::drop, stub_anyhow_drop)]
     #[kani::stub(core::slice::memchr::memchr, stub_memchr)]
     #[kani::unwind(12)]
     c16_code_id_code_exp_golomb0_be (quick, "Codes::ExpGolomb param 0, BE stream", "to_code_const then from_code_const: same codewords (symbolic value) / rejected when no constant exists") => code_id_code_be::<_, {EXP_GOLOMB}, 0>;
     #[kani::stub(alloc::fmt::format, stub_format)]
     #[kani::stub(std::string::ToString::to_string, stub_to_string)]
     #[kani::stub(std::backtrace::Backtrace::capture, stub_backtrace_capture)]
+    #[kani::stub(<anyhow::Error as core::ops::Drop>::drop, stub_anyhow_drop)]
     #[kani::stub(core::slice::memchr::memchr, stub_memchr)]
     #[kani::unwind(12)]
     c16_code_id_code_exp_golomb0_le (thorough, "Codes::ExpGolomb param 0, LE stream", "to_code_const then from_code_const: same codewords (symbolic value) / rejected when no constant exists") => code_id_code_le::<_, {EXP_GOLOMB}, 0>;
     #[kani::stub(alloc::fmt::format, stub_format)]
     #[kani::stub(std::string::ToString::to_string, stub_to_string)]
     #[kani::stub(std::backtrace::Backtrace::capture, stub_backtrace_capture)]
+    #[kani::stub(<anyhow::Error as core::ops::Drop>::drop, stub_anyhow_drop)]
     #[kani::stub(core::slice::memchr::memchr, stub_memchr)]
     #[kani::unwind(12)]
     c16_code_id_code_exp_golomb1_be (thorough, "Codes::ExpGolomb param 1, BE stream", "to_code_const then from_code_const: same codewords (symbolic value) / rejected when no constant exists") => code_id_code_be::<_, {EXP_GOLOMB}, 1>;
     #[kani::stub(alloc::fmt::format, stub_format)]
     #[kani::stub(std::string::ToString::to_string, stub_to_string)]
     #[kani::stub(std::backtrace::Backtrace::capture, stub_backtrace_capture)]
+    #[kani::stub(<anyhow::Error as core::ops::Drop>::drop, stub_anyhow_drop)]
     #[kani::stub(core::slice::memchr::memchr, stub_memchr)]
     #[kani::unwind(12)]
     c16_code_id_code_exp_golomb1_le (thorough, "Codes::ExpGolomb param 1, LE stream", "to_code_const then from_code_const: same codewords (symbolic value) / rejected when no constant exists") => code_id_code_le::<_, {EXP_GOLOMB}, 1>;
     #[kani::stub(alloc::fmt::format, stub_format)]
     #[kani::stub(std::string::ToString::to_string, stub_to_string)]
     #[kani::stub(std::backtrace::Backtrace::capture, stub_backtrace_capture)]
+    #[kani::stub(<anyhow::Error as core::ops::Drop>::drop, stub_anyhow_drop)]
     #[kani::stub(core::slice::memchr::memchr, stub_memchr)]
     #[kani::unwind(12)]
     c16_code_id_code_exp_golomb2_be (thorough, "Codes::ExpGolomb param 2, BE stream", "to_code_const then from_code_const: same codewords (symbolic value) / rejected when no constant exists") => code_id_code_be::<_, {EXP_GOLOMB}, 2>;
     #[kani::stub(alloc::fmt::format, stub_format)]
     #[kani::stub(std::string::ToString::to_string, stub_to_string)]
     #[kani::stub(std::backtrace::Backtrace::capture, stub_backtrace_capture)]
+    #[kani::stub(<anyhow::Error as core::ops::Drop>::drop, stub_anyhow_drop)]
     #[kani::stub(core::slice::memchr::memchr, stub_memchr)]
     #[kani::unwind(12)]
     c16_code_id_code_exp_golomb2_le (thorough, "Codes::ExpGolomb param 2, LE stream", "to_code_const then from_code_const: same codewords (symbolic value) / rejected when no constant exists") => code_id_code_le::<_, {EXP_GOLOMB}, 2>;
     #[kani::stub(alloc::fmt::format, stub_format)]
     #[kani::stub(std::string::ToString::to_string, stub_to_string)]
     #[kani::stub(std::backtrace::Backtrace::capture, stub_backtrace_capture)]
+    #[kani::stub(<anyhow::Error as core::ops::Drop>::drop, stub_anyhow_drop)]
     #[kani::stub(core::slice::memchr::memchr, stub_memchr)]
     #[kani::unwind(12)]
     c16_code_id_code_exp_golomb3_be (thorough, "Codes::ExpGolomb param 3, BE stream", "to_code_const then from_code_const: same codewords (symbolic value) / rejected when no constant exists") => code_id_code_be::<_, {EXP_GOLOMB}, 3>;
     #[kani::stub(alloc::fmt::format, stub_format)]
     #[kani::stub(std::string::ToString::to_string, stub_to_string)]
     #[kani::stub(std::backtrace::Backtrace::capture, stub_backtrace_capture)]
+    #[kani::stub(<anyhow::Error as core::ops::Drop>::drop, stub_anyhow_drop)]
     #[kani::stub(core::slice::memchr::memchr, stub_memchr)]
     #[kani::unwind(12)]
     c16_code_id_code_exp_golomb3_le (thorough, "Codes::ExpGolomb param 3, LE stream", "to_code_const then from_code_const: same codewords (symbolic value) / rejected when no constant exists") => code_id_code_le::<_, {EXP_GOLOMB}, 3>;
     #[kani::stub(alloc::fmt::format, stub_format)]
     #[kani::stub(std::string::ToString::to_string, stub_to_string)]
     #[kani::stub(std::backtrace::Backtrace::capture, stub_backtrace_capture)]
+    #[kani::stub(<anyhow::Error as core::ops::Drop>::drop, stub_anyhow_drop)]
     #[kani::stub(core::slice::memchr::memchr, stub_memchr)]
     #[kani::unwind(12)]
     c16_code_id_code_exp_golomb4_be (thorough, "Codes::ExpGolomb param 4, BE stream", "to_code_const then from_code_const: same codewords (symbolic value) / rejected when no constant exists") => code_id_code_be::<_, {EXP_GOLOMB}, 4>;
     #[kani::stub(alloc::fmt::format, stub_format)]
     #[kani::stub(std::string::ToString::to_string, stub_to_string)]
     #[kani::stub(std::backtrace::Backtrace::capture, stub_backtrace_capture)]
+    #[kani::stub(<anyhow::Error as core::ops::Drop>::drop, stub_anyhow_drop)]
     #[kani::stub(core::slice::memchr::memchr, stub_memchr)]
     #[kani::unwind(12)]
     c16_code_id_code_exp_golomb4_le (thorough, "Codes::ExpGolomb param 4, LE stream", "to_code_const then from_code_const: same codewords (symbolic value) / rejected when no constant exists") => code_id_code_le::<_, {EXP_GOLOMB}, 4>;
     #[kani::stub(alloc::fmt::format, stub_format)]
     #[kani::stub(std::string::ToString::to_string, stub_to_string)]
     #[kani::stub(std::backtrace::Backtrace::capture, stub_backtrace_capture)]
+    #[kani::stub(<anyhow::Error as core::ops::Drop>::drop, stub_anyhow_drop)]
     #[kani::stub(core::slice::memchr::memchr, stub_memchr)]
     #[kani::unwind(12)]
     c16_code_id_code_exp_golomb5_be (thorough, "Codes::ExpGolomb param 5, BE stream", "to_code_const then from_code_const: same codewords (symbolic value) / rejected when no constant exists") => code_id_code_be::<_, {EXP_GOLOMB}, 5>;
     #[kani::stub(alloc::fmt::format, stub_format)]
     #[kani::stub(std::string::ToString::to_string, stub_to_string)]
     #[kani::stub(std::backtrace::Backtrace::capture, stub_backtrace_capture)]
+    #[kani::stub(<anyhow::Error as core::ops::Drop>::drop, stub_anyhow_drop)]
     #[kani::stub(core::slice::memchr::memchr, stub_memchr)]
     #[kani::unwind(12)]
     c16_code_id_code_exp_golomb5_le (thorough, "Codes::ExpGolomb param 5, LE stream", "to_code_const then from_code_const: same codewords (symbolic value) / rejected when no constant exists") => code_id_code_le::<_, {EXP_GOLOMB}, 5>;
     #[kani::stub(alloc::fmt::format, stub_format)]
     #[kani::stub(std::string::ToString::to_string, stub_to_string)]
     #[kani::stub(std::backtrace::Backtrace::capture, stub_backtrace_capture)]
+    #[kani::stub(<anyhow::Error as core::ops::Drop>::drop, stub_anyhow_drop)]
     #[kani::stub(core::slice::memchr::memchr, stub_memchr)]
     #[kani::unwind(12)]
     c16_code_id_code_exp_golomb6_be (thorough, "Codes::ExpGolomb param 6, BE stream", "to_code_const then from_code_const: same codewords (symbolic value) / rejected when no constant exists") => code_id_code_be::<_, {EXP_GOLOMB}, 6>;
     #[kani::stub(alloc::fmt::format, stub_format)]
     #[kani::stub(std::string::ToString::to_string, stub_to_string)]
     #[kani::stub(std::backtrace::Backtrace::capture, stub_backtrace_capture)]
+    #[kani::stub(<anyhow::Error as core::ops::Drop>::drop, stub_anyhow_drop)]
     #[kani::stub(core::slice::memchr::memchr, stub_memchr)]
     #[kani::unwind(12)]
     c16_code_id_code_exp_golomb6_le (thorough, "Codes::ExpGolomb param 6, LE stream", "to_code_const then from_code_const: same codewords (symbolic value) / rejected when no constant exists") => code_id_code_le::<_, {EXP_GOLOMB}, 6>;
     #[kani::stub(alloc::fmt::format, stub_format)]
     #[kani::stub(std::string::ToString::to_string, stub_to_string)]
     #[kani::stub(std::backtrace::Backtrace::capture, stub_backtrace_capture)]
+    #[kani::stub(<anyhow::Error as core::ops::Drop>::drop, stub_anyhow_drop)]
     #[kani::stub(core::slice::memchr::memchr, stub_memchr)]
     #[kani::unwind(12)]
     c16_code_id_code_exp_golomb7_be (thorough, "Codes::ExpGolomb param 7, BE stream", "to_code_const then from_code_const: same codewords (symbolic value) / rejected when no constant exists") => code_id_code_be::<_, {EXP_GOLOMB}, 7>;
     #[kani::stub(alloc::fmt::format, stub_format)]
     #[kani::stub(std::string::ToString::to_string, stub_to_string)]
     #[kani::stub(std::backtrace::Backtrace::capture, stub_backtrace_capture)]
+    #[kani::stub(<anyhow::Error as core::ops::Drop>::drop, stub_anyhow_drop)]
     #[kani::stub(core::slice::memchr::memchr, stub_memchr)]
     #[kani::unwind(12)]
     c16_code_id_code_exp_golomb7_le (thorough, "Codes::ExpGolomb param 7, LE stream", "to_code_const then from_code_const: same codewords (symbolic value) / rejected when no constant exists") => code_id_code_le::<_, {EXP_GOLOMB}, 7>;
     #[kani::stub(alloc::fmt::format, stub_format)]
     #[kani::stub(std::string::ToString::to_string, stub_to_string)]
     #[kani::stub(std::backtrace::Backtrace::capture, stub_backtrace_capture)]
+    #[kani::stub(<anyhow::Error as core::ops::Drop>::drop, stub_anyhow_drop)]
     #[kani::stub(core::slice::memchr::memchr, stub_memchr)]
     #[kani::unwind(12)]
     c16_code_id_code_exp_golomb8_be (thorough, "Codes::ExpGolomb param 8, BE stream", "to_code_const then from_code_const: same codewords (symbolic value) / rejected when no constant exists") => code_id_code_be::<_, {EXP_GOLOMB}, 8>;
     #[kani::stub(alloc::fmt::format, stub_format)]
     #[kani::stub(std::string::ToString::to_string, stub_to_string)]
     #[kani::stub(std::backtrace::Backtrace::capture, stub_backtrace_capture)]
+    #[kani::stub(<anyhow::Error as core::ops::Drop>::drop, stub_anyhow_drop)]
     #[kani::stub(core::slice::memchr::memchr, stub_memchr)]
     #[kani::unwind(12)]
     c16_code_id_code_exp_golomb8_le (thorough, "Codes::ExpGolomb param 8, LE stream", "to_code_const then from_code_const: same codewords (symbolic value) / rejected when no constant exists") => code_id_code_le::<_, {EXP_GOLOMB}, 8>;
     #[kani::stub(alloc::fmt::format, stub_format)]
     #[kani::stub(std::string::ToString::to_string, stub_to_string)]
     #[kani::stub(std::backtrace::Backtrace::capture, stub_backtrace_capture)]
+    #[kani::stub(<anyhow::Error as core::ops::Drop>::drop, stub_anyhow_drop)]
     #[kani::stub(core::slice::memchr::memchr, stub_memchr)]
     #[kani::unwind(12)]
     c16_code_id_code_exp_golomb9_be (thorough, "Codes::ExpGolomb param 9, BE stream", "to_code_const then from_code_const: same codewords (symbolic value) / rejected when no constant exists") => code_id_code_be::<_, {EXP_GOLOMB}, 9>;
     #[kani::stub(alloc::fmt::format, stub_format)]
     #[kani::stub(std::string::ToString::to_string, stub_to_string)]
     #[kani::stub(std::backtrace::Backtrace::capture, stub_backtrace_capture)]
+    #[kani::stub(<anyhow::Error as core::ops::Drop>::drop, stub_anyhow_drop)]
     #[kani::stub(core::slice::memchr::memchr, stub_memchr)]
     #[kani::unwind(12)]
     c16_code_id_code_exp_golomb9_le (thorough, "Codes::ExpGolomb param 9, LE stream", "to_code_const then from_code_const: same codewords (symbolic value) / rejected when no constant exists") => code_id_code_le::<_, {EXP_GOLOMB}, 9>;
     #[kani::stub(alloc::fmt::format, stub_format)]
     #[kani::stub(std::string::ToString::to_string, stub_to_string)]
     #[kani::stub(std::backtrace::Backtrace::capture, stub_backtrace_capture)]
+    #[kani::stub(<anyhow::Error as core::ops::Drop>::drop, stub_anyhow_drop)]
     #[kani::stub(core::slice::memchr::memchr, stub_memchr)]
     #[kani::unwind(12)]
     c16_code_id_code_exp_golomb10_be (quick, "Codes::ExpGolomb param 10, BE stream", "to_code_const then from_code_const: same codewords (symbolic value) / rejected when no constant exists") => code_id_code_be::<_, {EXP_GOLOMB}, 10>;
     #[kani::stub(alloc::fmt::format, stub_format)]
     #[kani::stub(std::string::ToString::to_string, stub_to_string)]
     #[kani::stub(std::backtrace::Backtrace::capture, stub_backtrace_capture)]
+    #[kani::stub(<anyhow::Error as core::ops::Drop>::drop, stub_anyhow_drop)]
     #[kani::stub(core::slice::memchr::memchr, stub_memchr)]
     #[kani::unwind(12)]
     c16_code_id_code_exp_golomb10_le (thorough, "Codes::ExpGolomb param 10, LE stream", "to_code_const then from_code_const: same codewords (symbolic value) / rejected when no constant exists") => code_id_code_le::<_, {EXP_GOLOMB}, 10>;
     #[kani::stub(alloc::fmt::format, stub_format)]
     #[kani::stub(std::string::ToString::to_string, stub_to_string)]
     #[kani::stub(std::backtrace::Backtrace::capture, stub_backtrace_capture)]
+    #[kani::stub(<anyhow::Error as core::ops::Drop>::drop, stub_anyhow_drop)]
     #[kani::stub(core::slice::memchr::memchr, stub_memchr)]
     #[kani::unwind(12)]
     c16_code_id_code_exp_golomb11_be (thorough, "Codes::ExpGolomb param 11, BE stream", "to_code_const then from_code_const: same codewords (symbolic value) / rejected when no constant exists") => code_id_code_be::<_, {EXP_GOLOMB}, 11>;
     #[kani::stub(alloc::fmt::format, stub_format)]
     #[kani::stub(std::string::ToString::to_string, stub_to_string)]
     #[kani::stub(std::backtrace::Backtrace::capture, stub_backtrace_capture)]
+    #[kani::stub(<anyhow::Error as core::ops::Drop>::drop, stub_anyhow_drop)]
     #[kani::stub(core::slice::memchr::memchr, stub_memchr)]
     #[kani::unwind(12)]
     c16_code_id_code_exp_golomb11_le (thorough, "Codes::ExpGolomb param 11, LE stream", "to_code_const then from_code_const: same codewords (symbolic value) / rejected when no constant exists") => code_id_code_le::<_, {EXP_GOLOMB}, 11>;
     #[kani::stub(alloc::fmt::format, stub_format)]
     #[kani::stub(std::string::ToString::to_string, stub_to_string)]
     #[kani::stub(std::backtrace::Backtrace::capture, stub_backtrace_capture)]
+    #[kani::stub(<anyhow::Error as core::ops::Drop>::drop, stub_anyhow_drop)]
     #[kani::stub(core::slice::memchr::memchr, stub_memchr)]
     #[kani::unwind(12)]
     c16_code_id_code_exp_golomb12_be (quick, "Codes::ExpGolomb param 12, BE stream", "to_code_const then from_code_const: same codewords (symbolic value) / rejected when no constant exists") => code_id_code_be::<_, {EXP_GOLOMB}, 12>;
     #[kani::stub(alloc::fmt::format, stub_format)]
     #[kani::stub(std::string::ToString::to_string, stub_to_string)]
     #[kani::stub(std::backtrace::Backtrace::capture, stub_backtrace_capture)]
+    #[kani::stub(<anyhow::Error as core::ops::Drop>::drop, stub_anyhow_drop)]
     #[kani::stub(core::slice::memchr::memchr, stub_memchr)]
     #[kani::unwind(12)]
     c16_code_id_code_exp_golomb12_le (thorough, "Codes::ExpGolomb param 12, LE stream", "to_code_const then from_code_const: same codewords (symbolic value) / rejected when no constant exists") => code_id_code_le::<_, {EXP_GOLOMB}, 12>;
     #[kani::stub(alloc::fmt::format, stub_format)]
     #[kani::stub(std::string::ToString::to_string, stub_to_string)]
     #[kani::stub(std::backtrace::Backtrace::capture, stub_backtrace_capture)]
+    #[kani::stub(<anyhow::Error as core::ops::Drop>::drop, stub_anyhow_drop)]
     #[kani::stub(core::slice::memchr::memchr, stub_memchr)]
     #[kani::unwind(12)]
     c16_code_id_code_rice0_be (quick, "Codes::Rice param 0, BE stream", "to_code_const then from_code_const: same codewords (symbolic value) / rejected when no constant exists") => code_id_code_be::<_, {RICE}, 0>;
     #[kani::stub(alloc::fmt::format, stub_format)]
     #[kani::stub(std::string::ToString::to_string, stub_to_string)]
     #[kani::stub(std::backtrace::Backtrace::capture, stub_backtrace_capture)]
+    #[kani::stub(<anyhow::Error as core::ops::Drop>::drop, stub_anyhow_drop)]
     #[kani::stub(core::slice::memchr::memchr, stub_memchr)]
     #[kani::unwind(12)]
     c16_code_id_code_rice0_le (thorough, "Codes::Rice param 0, LE stream", "to_code_const then from_code_const: same codewords (symbolic value) / rejected when no constant exists") => code_id_code_le::<_, {RICE}, 0>;
     #[kani::stub(alloc::fmt::format, stub_format)]
     #[kani::stub(std::string::ToString::to_string, stub_to_string)]
     #[kani::stub(std::backtrace::Backtrace::capture, stub_backtrace_capture)]
+    #[kani::stub(<anyhow::Error as core::ops::Drop>::drop, stub_anyhow_drop)]
     #[kani::stub(core::slice::memchr::memchr, stub_memchr)]
     #[kani::unwind(12)]
     c16_code_id_code_rice1_be (thorough, "Codes::Rice param 1, BE stream", "to_code_const then from_code_const: same codewords (symbolic value) / rejected when no constant exists") => code_id_code_be::<_, {RICE}, 1>;
     #[kani::stub(alloc::fmt::format, stub_format)]
     #[kani::stub(std::string::ToString::to_string, stub_to_string)]
     #[kani::stub(std::backtrace::Backtrace::capture, stub_backtrace_capture)]
+    #[kani::stub(<anyhow::Error as core::ops::Drop>::drop, stub_anyhow_drop)]
     #[kani::stub(core::slice::memchr::memchr, stub_memchr)]
     #[kani::unwind(12)]
     c16_code_id_code_rice1_le (thorough, "Codes::Rice param 1, LE stream", "to_code_const then from_code_const: same codewords (symbolic value) / rejected when no constant exists") => code_id_code_le::<_, {RICE}, 1>;
     #[kani::stub(alloc::fmt::format, stub_format)]
     #[kani::stub(std::string::ToString::to_string, stub_to_string)]
     #[kani::stub(std::backtrace::Backtrace::capture, stub_backtrace_capture)]
+    #[kani::stub(<anyhow::Error as core::ops::Drop>::drop, stub_anyhow_drop)]
     #[kani::stub(core::slice::memchr::memchr, stub_memchr)]
     #[kani::unwind(12)]
     c16_code_id_code_rice2_be (thorough, "Codes::Rice param 2, BE stream", "to_code_const then from_code_const: same codewords (symbolic value) / rejected when no constant exists") => code_id_code_be::<_, {RICE}, 2>;
     #[kani::stub(alloc::fmt::format, stub_format)]
     #[kani::stub(std::string::ToString::to_string, stub_to_string)]
     #[kani::stub(std::backtrace::Backtrace::capture, stub_backtrace_capture)]
+    #[kani::stub(<anyhow::Error as core::ops::Drop>::drop, stub_anyhow_drop)]
     #[kani::stub(core::slice::memchr::memchr, stub_memchr)]
     #[kani::unwind(12)]
     c16_code_id_code_rice2_le (thorough, "Codes::Rice param 2, LE stream", "to_code_const then from_code_const: same codewords (symbolic value) / rejected when no constant exists") => code_id_code_le::<_, {RICE}, 2>;
     #[kani::stub(alloc::fmt::format, stub_format)]
     #[kani::stub(std::string::ToString::to_string, stub_to_string)]
     #[kani::stub(std::backtrace::Backtrace::capture, stub_backtrace_capture)]
+    #[kani::stub(<anyhow::Error as core::ops::Drop>::drop, stub_anyhow_drop)]
     #[kani::stub(core::slice::memchr::memchr, stub_memchr)]
     #[kani::unwind(12)]
     c16_code_id_code_rice3_be (quick, "Codes::Rice param 3, BE stream", "to_code_const then from_code_const: same codewords (symbolic value) / rejected when no constant exists") => code_id_code_be::<_, {RICE}, 3>;
     #[kani::stub(alloc::fmt::format, stub_format)]
     #[kani::stub(std::string::ToString::to_string, stub_to_string)]
     #[kani::stub(std::backtrace::Backtrace::capture, stub_backtrace_capture)]
+    #[kani::stub(<anyhow::Error as core::ops::Drop>::drop, stub_anyhow_drop)]
     #[kani::stub(core::slice::memchr::memchr, stub_memchr)]
     #[kani::unwind(12)]
     c16_code_id_code_rice3_le (thorough, "Codes::Rice param 3, LE stream", "to_code_const then from_code_const: same codewords (symbolic value) / rejected when no constant exists") => code_id_code_le::<_, {RICE}, 3>;
     #[kani::stub(alloc::fmt::format, stub_format)]
     #[kani::stub(std::string::ToString::to_string, stub_to_string)]
     #[kani::stub(std::backtrace::Backtrace::capture, stub_backtrace_capture)]
+    #[kani::stub(<anyhow::Error as core::ops::Drop>::drop, stub_anyhow_drop)]
     #[kani::stub(core::slice::memchr::memchr, stub_memchr)]
     #[kani::unwind(12)]
     c16_code_id_code_rice4_be (thorough, "Codes::Rice param 4, BE stream", "to_code_const then from_code_const: same codewords (symbolic value) / rejected when no constant exists") => code_id_code_be::<_, {RICE}, 4>;
     #[kani::stub(alloc::fmt::format, stub_format)]
     #[kani::stub(std::string::ToString::to_string, stub_to_string)]
     #[kani::stub(std::backtrace::Backtrace::capture, stub_backtrace_capture)]
+    #[kani::stub(<anyhow::Error as core::ops::Drop>::drop, stub_anyhow_drop)]
     #[kani::stub(core::slice::memchr::memchr, stub_memchr)]
     #[kani::unwind(12)]
     c16_code_id_code_rice4_le (thorough, "Codes::Rice param 4, LE stream", "to_code_const then from_code_const: same codewords (symbolic value) / rejected when no constant exists") => code_id_code_le::<_, {RICE}, 4>;
     #[kani::stub(alloc::fmt::format, stub_format)]
     #[kani::stub(std::string::ToString::to_string, stub_to_string)]
     #[kani::stub(std::backtrace::Backtrace::capture, stub_backtrace_capture)]
+    #[kani::stub(<anyhow::Error as core::ops::Drop>::drop, stub_anyhow_drop)]
     #[kani::stub(core::slice::memchr::memchr, stub_memchr)]
     #[kani::unwind(12)]
     c16_code_id_code_rice5_be (thorough, "Codes::Rice param 5, BE stream", "to_code_const then from_code_const: same codewords (symbolic value) / rejected when no constant exists") => code_id_code_be::<_, {RICE}, 5>;
     #[kani::stub(alloc::fmt::format, stub_format)]
     #[kani::stub(std::string::ToString::to_string, stub_to_string)]
     #[kani::stub(std::backtrace::Backtrace::capture, stub_backtrace_capture)]
+    #[kani::stub(<anyhow::Error as core::ops::Drop>::drop, stub_anyhow_drop)]
     #[kani::stub(core::slice::memchr::memchr, stub_memchr)]
     #[kani::unwind(12)]
     c16_code_id_code_rice5_le (thorough, "Codes::Rice param 5, LE stream", "to_code_const then from_code_const: same codewords (symbolic value) / rejected when no constant exists") => code_id_code_le::<_, {RICE}, 5>;
     #[kani::stub(alloc::fmt::format, stub_format)]
     #[kani::stub(std::string::ToString::to_string, stub_to_string)]
     #[kani::stub(std::backtrace::Backtrace::capture, stub_backtrace_capture)]
+    #[kani::stub(<anyhow::Error as core::ops::Drop>::drop, stub_anyhow_drop)]
     #[kani::stub(core::slice::memchr::memchr, stub_memchr)]
     #[kani::unwind(12)]
     c16_code_id_code_rice6_be (thorough, "Codes::Rice param 6, BE stream", "to_code_const then from_code_const: same codewords (symbolic value) / rejected when no constant exists") => code_id_code_be::<_, {RICE}, 6>;
     #[kani::stub(alloc::fmt::format, stub_format)]
     #[kani::stub(std::string::ToString::to_string, stub_to_string)]
     #[kani::stub(std::backtrace::Backtrace::capture, stub_backtrace_capture)]
+    #[kani::stub(<anyhow::Error as core::ops::Drop>::drop, stub_anyhow_drop)]
     #[kani::stub(core::slice::memchr::memchr, stub_memchr)]
     #[kani::unwind(12)]
     c16_code_id_code_rice6_le (thorough, "Codes::Rice param 6, LE stream", "to_code_const then from_code_const: same codewords (symbolic value) / rejected when no constant exists") => code_id_code_le::<_, {RICE}, 6>;
     #[kani::stub(alloc::fmt::format, stub_format)]
     #[kani::stub(std::string::ToString::to_string, stub_to_string)]
     #[kani::stub(std::backtrace::Backtrace::capture, stub_backtrace_capture)]
+    #[kani::stub(<anyhow::Error as core::ops::Drop>::drop, stub_anyhow_drop)]
     #[kani::stub(core::slice::memchr::memchr, stub_memchr)]
     #[kani::unwind(12)]
     c16_code_id_code_rice7_be (thorough, "Codes::Rice param 7, BE stream", "to_code_const then from_code_const: same codewords (symbolic value) / rejected when no constant exists") => code_id_code_be::<_, {RICE}, 7>;
     #[kani::stub(alloc::fmt::format, stub_format)]
     #[kani::stub(std::string::ToString::to_string, stub_to_string)]
     #[kani::stub(std::backtrace::Backtrace::capture, stub_backtrace_capture)]
+    #[kani::stub(<anyhow::Error as core::ops::Drop>::drop, stub_anyhow_drop)]
     #[kani::stub(core::slice::memchr::memchr, stub_memchr)]
     #[kani::unwind(12)]
     c16_code_id_code_rice7_le (thorough, "Codes::Rice param 7, LE stream", "to_code_const then from_code_const: same codewords (symbolic value) / rejected when no constant exists") => code_id_code_le::<_, {RICE}, 7>;
     #[kani::stub(alloc::fmt::format, stub_format)]
     #[kani::stub(std::string::ToString::to_string, stub_to_string)]
     #[kani::stub(std::backtrace::Backtrace::capture, stub_backtrace_capture)]
+    #[kani::stub(<anyhow::Error as core::ops::Drop>::drop, stub_anyhow_drop)]
     #[kani::stub(core::slice::memchr::memchr, stub_memchr)]
     #[kani::unwind(12)]
     c16_code_id_code_rice8_be (thorough, "Codes::Rice param 8, BE stream", "to_code_const then from_code_const: same codewords (symbolic value) / rejected when no constant exists") => code_id_code_be::<_, {RICE}, 8>;
     #[kani::stub(alloc::fmt::format, stub_format)]
     #[kani::stub(std::string::ToString::to_string, stub_to_string)]
     #[kani::stub(std::backtrace::Backtrace::capture, stub_backtrace_capture)]
+    #[kani::stub(<anyhow::Error as core::ops::Drop>::drop, stub_anyhow_drop)]
     #[kani::stub(core::slice::memchr::memchr, stub_memchr)]
     #[kani::unwind(12)]
     c16_code_id_code_rice8_le (thorough, "Codes::Rice param 8, LE stream", "to_code_const then from_code_const: same codewords (symbolic value) / rejected when no constant exists") => code_id_code_le::<_, {RICE}, 8>;
     #[kani::stub(alloc::fmt::format, stub_format)]
     #[kani::stub(std::string::ToString::to_string, stub_to_string)]
     #[kani::stub(std::backtrace::Backtrace::capture, stub_backtrace_capture)]
+    #[kani::stub(<anyhow::Error as core::ops::Drop>::drop, stub_anyhow_drop)]
     #[kani::stub(core::slice::memchr::memchr, stub_memchr)]
     #[kani::unwind(12)]
     c16_code_id_code_rice9_be (thorough, "Codes::Rice param 9, BE stream", "to_code_const then from_code_const: same codewords (symbolic value) / rejected when no constant exists") => code_id_code_be::<_, {RICE}, 9>;
     #[kani::stub(alloc::fmt::format, stub_format)]
     #[kani::stub(std::string::ToString::to_string, stub_to_string)]
     #[kani::stub(std::backtrace::Backtrace::capture, stub_backtrace_capture)]
+    #[kani::stub(<anyhow::Error as core::ops::Drop>::drop, stub_anyhow_drop)]
     #[kani::stub(core::slice::memchr::memchr, stub_memchr)]
     #[kani::unwind(12)]
     c16_code_id_code_rice9_le (thorough, "Codes::Rice param 9, LE stream", "to_code_const then from_code_const: same codewords (symbolic value) / rejected when no constant exists") => code_id_code_le::<_, {RICE}, 9>;
     #[kani::stub(alloc::fmt::format, stub_format)]
     #[kani::stub(std::string::ToString::to_string, stub_to_string)]
     #[kani::stub(std::backtrace::Backtrace::capture, stub_backtrace_capture)]
+    #[kani::stub(<anyhow::Error as core::ops::Drop>::drop, stub_anyhow_drop)]
     #[kani::stub(core::slice::memchr::memchr, stub_memchr)]
     #[kani::unwind(12)]
     c16_code_id_code_rice10_be (thorough, "Codes::Rice param 10, BE stream", "to_code_const then from_code_const: same codewords (symbolic value) / rejected when no constant exists") => code_id_code_be::<_, {RICE}, 10>;
     #[kani::stub(alloc::fmt::format, stub_format)]
     #[kani::stub(std::string::ToString::to_string, stub_to_string)]
     #[kani::stub(std::backtrace::Backtrace::capture, stub_backtrace_capture)]
+    #[kani::stub(<anyhow::Error as core::ops::Drop>::drop, stub_anyhow_drop)]
     #[kani::stub(core::slice::memchr::memchr, stub_memchr)]
     #[kani::unwind(12)]
     c16_code_id_code_rice10_le (thorough, "Codes::Rice param 10, LE stream", "to_code_const then from_code_const: same codewords (symbolic value) / rejected when no constant exists") => code_id_code_le::<_, {RICE}, 10>;
     #[kani::stub(alloc::fmt::format, stub_format)]
     #[kani::stub(std::string::ToString::to_string, stub_to_string)]
     #[kani::stub(std::backtrace::Backtrace::capture, stub_backtrace_capture)]
+    #[kani::stub(<anyhow::Error as core::ops::Drop>::drop, stub_anyhow_drop)]
     #[kani::stub(core::slice::memchr::memchr, stub_memchr)]
     #[kani::unwind(12)]
     c16_code_id_code_rice11_be (quick, "Codes::Rice param 11, BE stream", "to_code_const then from_code_const: same codewords (symbolic value) / rejected when no constant exists") => code_id_code_be::<_, {RICE}, 11>;
     #[kani::stub(alloc::fmt::format, stub_format)]
     #[kani::stub(std::string::ToString::to_string, stub_to_string)]
     #[kani::stub(std::backtrace::Backtrace::capture, stub_backtrace_capture)]
+    #[kani::stub(<anyhow::Error as core::ops::Drop>::drop, stub_anyhow_drop)]
     #[kani::stub(core::slice::memchr::memchr, stub_memchr)]
     #[kani::unwind(12)]
     c16_code_id_code_rice11_le (thorough, "Codes::Rice param 11, LE stream", "to_code_const then from_code_const: same codewords (symbolic value) / rejected when no constant exists") => code_id_code_le::<_, {RICE}, 11>;
     #[kani::stub(alloc::fmt::format, stub_format)]
     #[kani::stub(std::string::ToString::to_string, stub_to_string)]
     #[kani::stub(std::backtrace::Backtrace::capture, stub_backtrace_capture)]
+    #[kani::stub(<anyhow::Error as core::ops::Drop>::drop, stub_anyhow_drop)]
     #[kani::stub(core::slice::memchr::memchr, stub_memchr)]
     #[kani::unwind(12)]
     c16_code_id_code_rice12_be (thorough, "Codes::Rice param 12, BE stream", "to_code_const then from_code_const: same codewords (symbolic value) / rejected when no constant exists") => code_id_code_be::<_, {RICE}, 12>;
     #[kani::stub(alloc::fmt::format, stub_format)]
     #[kani::stub(std::string::ToString::to_string, stub_to_string)]
     #[kani::stub(std::backtrace::Backtrace::capture, stub_backtrace_capture)]
+    #[kani::stub(<anyhow::Error as core::ops::Drop>::drop, stub_anyhow_drop)]
     #[kani::stub(core::slice::memchr::memchr, stub_memchr)]
     #[kani::unwind(12)]
     c16_code_id_code_rice12_le (thorough, "Codes::Rice param 12, LE stream", "to_code_const then from_code_const: same codewords (symbolic value) / rejected when no constant exists") => code_id_code_le::<_, {RICE}, 12>;
     #[kani::stub(alloc::fmt::format, stub_format)]
     #[kani::stub(std::string::ToString::to_string, stub_to_string)]
     #[kani::stub(std::backtrace::Backtrace::capture, stub_backtrace_capture)]
+    #[kani::stub(<anyhow::Error as core::ops::Drop>::drop, stub_anyhow_drop)]
     #[kani::stub(core::slice::memchr::memchr, stub_memchr)]
     #[kani::unwind(12)]
     c16_code_id_code_zeta0_be (thorough, "Codes::Zeta param 0, BE stream", "to_code_const then from_code_const: same codewords (symbolic value) / rejected when no constant exists") => code_id_code_be::<_, {ZETA}, 0>;
     #[kani::stub(alloc::fmt::format, stub_format)]
     #[kani::stub(std::string::ToString::to_string, stub_to_string)]
     #[kani::stub(std::backtrace::Backtrace::capture, stub_backtrace_capture)]
+    #[kani::stub(<anyhow::Error as core::ops::Drop>::drop, stub_anyhow_drop)]
     #[kani::stub(core::slice::memchr::memchr, stub_memchr)]
     #[kani::unwind(12)]
     c16_code_id_code_zeta0_le (thorough, "Codes::Zeta param 0, LE stream", "to_code_const then from_code_const: same codewords (symbolic value) / rejected when no constant exists") => code_id_code_le::<_, {ZETA}, 0>;
     #[kani::stub(alloc::fmt::format, stub_format)]
     #[kani::stub(std::string::ToString::to_string, stub_to_string)]
     #[kani::stub(std::backtrace::Backtrace::capture, stub_backtrace_capture)]
+    #[kani::stub(<anyhow::Error as core::ops::Drop>::drop, stub_anyhow_drop)]
     #[kani::stub(core::slice::memchr::memchr, stub_memchr)]
     #[kani::unwind(12)]
     c16_code_id_code_golomb0_be (thorough, "Codes::Golomb param 0, BE stream", "to_code_const then from_code_const: same codewords (symbolic value) / rejected when no constant exists") => code_id_code_be::<_, {GOLOMB}, 0>;
     #[kani::stub(alloc::fmt::format, stub_format)]
     #[kani::stub(std::string::ToString::to_string, stub_to_string)]
     #[kani::stub(std::backtrace::Backtrace::capture, stub_backtrace_capture)]
+    #[kani::stub(<anyhow::Error as core::ops::Drop>::drop, stub_anyhow_drop)]
     #[kani::stub(core::slice::memchr::memchr, stub_memchr)]
     #[kani::unwind(12)]
     c16_code_id_code_golomb0_le (thorough, "Codes::Golomb param 0, LE stream", "to_code_const then from_code_const: same codewords (symbolic value) / rejected when no constant exists") => code_id_code_le::<_, {GOLOMB}, 0>;
@@ -1233,505 +1378,603 @@ crate::harnesses! {
     #[kani::stub(alloc::fmt::format, stub_format)]
     #[kani::stub(std::string::ToString::to_string, stub_to_string)]
     #[kani::stub(std::backtrace::Backtrace::capture, stub_backtrace_capture)]
+    #[kani::stub(<anyhow::Error as core::ops::Drop>::drop, stub_anyhow_drop)]
     #[kani::stub(core::slice::memchr::memchr, stub_memchr)]
     #[kani::unwind(32)]
     c16_parse3_zeta (thorough, "FromStr for Codes", "Zeta(k) with a symbolic 3-digit k (10^2..10^3-1)") => parse_digits::<_, {ZETA}, 3>;
     #[kani::stub(alloc::fmt::format, stub_format)]
     #[kani::stub(std::string::ToString::to_string, stub_to_string)]
     #[kani::stub(std::backtrace::Backtrace::capture, stub_backtrace_capture)]
+    #[kani::stub(<anyhow::Error as core::ops::Drop>::drop, stub_anyhow_drop)]
     #[kani::stub(core::slice::memchr::memchr, stub_memchr)]
     #[kani::unwind(32)]
     c16_parse5_zeta (thorough, "FromStr for Codes", "Zeta(k) with a symbolic 5-digit k (10^4..10^5-1)") => parse_digits::<_, {ZETA}, 5>;
     #[kani::stub(alloc::fmt::format, stub_format)]
     #[kani::stub(std::string::ToString::to_string, stub_to_string)]
     #[kani::stub(std::backtrace::Backtrace::capture, stub_backtrace_capture)]
+    #[kani::stub(<anyhow::Error as core::ops::Drop>::drop, stub_anyhow_drop)]
     #[kani::stub(core::slice::memchr::memchr, stub_memchr)]
     #[kani::unwind(32)]
     c16_parse3_pi (thorough, "FromStr for Codes", "Pi(k) with a symbolic 3-digit k (10^2..10^3-1)") => parse_digits::<_, {PI}, 3>;
     #[kani::stub(alloc::fmt::format, stub_format)]
     #[kani::stub(std::string::ToString::to_string, stub_to_string)]
     #[kani::stub(std::backtrace::Backtrace::capture, stub_backtrace_capture)]
+    #[kani::stub(<anyhow::Error as core::ops::Drop>::drop, stub_anyhow_drop)]
     #[kani::stub(core::slice::memchr::memchr, stub_memchr)]
     #[kani::unwind(32)]
     c16_parse5_pi (thorough, "FromStr for Codes", "Pi(k) with a symbolic 5-digit k (10^4..10^5-1)") => parse_digits::<_, {PI}, 5>;
     #[kani::stub(alloc::fmt::format, stub_format)]
     #[kani::stub(std::string::ToString::to_string, stub_to_string)]
     #[kani::stub(std::backtrace::Backtrace::capture, stub_backtrace_capture)]
+    #[kani::stub(<anyhow::Error as core::ops::Drop>::drop, stub_anyhow_drop)]
     #[kani::stub(core::slice::memchr::memchr, stub_memchr)]
     #[kani::unwind(32)]
     c16_parse3_golomb (thorough, "FromStr for Codes", "Golomb(k) with a symbolic 3-digit k (10^2..10^3-1)") => parse_digits::<_, {GOLOMB}, 3>;
     #[kani::stub(alloc::fmt::format, stub_format)]
     #[kani::stub(std::string::ToString::to_string, stub_to_string)]
     #[kani::stub(std::backtrace::Backtrace::capture, stub_backtrace_capture)]
+    #[kani::stub(<anyhow::Error as core::ops::Drop>::drop, stub_anyhow_drop)]
     #[kani::stub(core::slice::memchr::memchr, stub_memchr)]
     #[kani::unwind(32)]
     c16_parse5_golomb (thorough, "FromStr for Codes", "Golomb(k) with a symbolic 5-digit k (10^4..10^5-1)") => parse_digits::<_, {GOLOMB}, 5>;
     #[kani::stub(alloc::fmt::format, stub_format)]
     #[kani::stub(std::string::ToString::to_string, stub_to_string)]
     #[kani::stub(std::backtrace::Backtrace::capture, stub_backtrace_capture)]
+    #[kani::stub(<anyhow::Error as core::ops::Drop>::drop, stub_anyhow_drop)]
     #[kani::stub(core::slice::memchr::memchr, stub_memchr)]
     #[kani::unwind(32)]
     c16_parse3_exp_golomb (thorough, "FromStr for Codes", "ExpGolomb(k) with a symbolic 3-digit k (10^2..10^3-1)") => parse_digits::<_, {EXP_GOLOMB}, 3>;
     #[kani::stub(alloc::fmt::format, stub_format)]
     #[kani::stub(std::string::ToString::to_string, stub_to_string)]
     #[kani::stub(std::backtrace::Backtrace::capture, stub_backtrace_capture)]
+    #[kani::stub(<anyhow::Error as core::ops::Drop>::drop, stub_anyhow_drop)]
     #[kani::stub(core::slice::memchr::memchr, stub_memchr)]
     #[kani::unwind(32)]
     c16_parse5_exp_golomb (thorough, "FromStr for Codes", "ExpGolomb(k) with a symbolic 5-digit k (10^4..10^5-1)") => parse_digits::<_, {EXP_GOLOMB}, 5>;
     #[kani::stub(alloc::fmt::format, stub_format)]
     #[kani::stub(std::string::ToString::to_string, stub_to_string)]
     #[kani::stub(std::backtrace::Backtrace::capture, stub_backtrace_capture)]
+    #[kani::stub(<anyhow::Error as core::ops::Drop>::drop, stub_anyhow_drop)]
     #[kani::stub(core::slice::memchr::memchr, stub_memchr)]
     #[kani::unwind(32)]
     c16_parse3_rice (thorough, "FromStr for Codes", "Rice(k) with a symbolic 3-digit k (10^2..10^3-1)") => parse_digits::<_, {RICE}, 3>;
     #[kani::stub(alloc::fmt::format, stub_format)]
     #[kani::stub(std::string::ToString::to_string, stub_to_string)]
     #[kani::stub(std::backtrace::Backtrace::capture, stub_backtrace_capture)]
+    #[kani::stub(<anyhow::Error as core::ops::Drop>::drop, stub_anyhow_drop)]
     #[kani::stub(core::slice::memchr::memchr, stub_memchr)]
     #[kani::unwind(32)]
     c16_parse5_rice (thorough, "FromStr for Codes", "Rice(k) with a symbolic 5-digit k (10^4..10^5-1)") => parse_digits::<_, {RICE}, 5>;
+    #[kani::stub(alloc::fmt::format, stub_format)]
+    #[kani::stub(std::string::ToString::to_string, stub_to_string)]
+    #[kani::stub(std::backtrace::Backtrace::capture, stub_backtrace_capture)]
+    #[kani::stub(<anyhow::Error as core::ops::Drop>::drop, stub_anyhow_drop)]
+    #[kani::stub(core::slice::memchr::memchr, stub_memchr)]
+    #[kani::unwind(32)]
+    c16_parse10_zeta (thorough, "FromStr for Codes", "Zeta(k) with a symbolic 10-digit k (10^9..10^10-1)") => parse_digits::<_, {ZETA}, 10>;
+    #[kani::stub(alloc::fmt::format, stub_format)]
+    #[kani::stub(std::string::ToString::to_string, stub_to_string)]
+    #[kani::stub(std::backtrace::Backtrace::capture, stub_backtrace_capture)]
+    #[kani::stub(<anyhow::Error as core::ops::Drop>::drop, stub_anyhow_drop)]
+    #[kani::stub(core::slice::memchr::memchr, stub_memchr)]
+    #[kani::unwind(32)]
+    c16_parse19_zeta (thorough, "FromStr for Codes", "Zeta(k) with a symbolic 19-digit k (10^18..10^19-1)") => parse_digits::<_, {ZETA}, 19>;
     c16_eq_classes (quick, "Codes::eq", "symbolic pair of variants with symbolic parameters (full usize range)") => eq_classes;
     #[kani::stub(alloc::fmt::format, stub_format)]
     #[kani::stub(std::string::ToString::to_string, stub_to_string)]
     #[kani::stub(std::backtrace::Backtrace::capture, stub_backtrace_capture)]
+    #[kani::stub(<anyhow::Error as core::ops::Drop>::drop, stub_anyhow_drop)]
     #[kani::stub(core::slice::memchr::memchr, stub_memchr)]
     #[kani::unwind(20)]
     c16_parse_zeta (thorough, "FromStr for Codes", "Zeta(k) with a symbolic two-digit k (10..=99)") => parse_digits::<_, {ZETA}, 2>;
     #[kani::stub(alloc::fmt::format, stub_format)]
     #[kani::stub(std::string::ToString::to_string, stub_to_string)]
     #[kani::stub(std::backtrace::Backtrace::capture, stub_backtrace_capture)]
+    #[kani::stub(<anyhow::Error as core::ops::Drop>::drop, stub_anyhow_drop)]
     #[kani::stub(core::slice::memchr::memchr, stub_memchr)]
     #[kani::unwind(20)]
     c16_parse1_zeta (thorough, "FromStr for Codes", "Zeta(k) with a symbolic one-digit k") => parse_digits::<_, {ZETA}, 1>;
     #[kani::stub(alloc::fmt::format, stub_format)]
     #[kani::stub(std::string::ToString::to_string, stub_to_string)]
     #[kani::stub(std::backtrace::Backtrace::capture, stub_backtrace_capture)]
+    #[kani::stub(<anyhow::Error as core::ops::Drop>::drop, stub_anyhow_drop)]
     #[kani::stub(core::slice::memchr::memchr, stub_memchr)]
     #[kani::unwind(20)]
     c16_parse_pi (thorough, "FromStr for Codes", "Pi(k) with a symbolic two-digit k (10..=99)") => parse_digits::<_, {PI}, 2>;
     #[kani::stub(alloc::fmt::format, stub_format)]
     #[kani::stub(std::string::ToString::to_string, stub_to_string)]
     #[kani::stub(std::backtrace::Backtrace::capture, stub_backtrace_capture)]
+    #[kani::stub(<anyhow::Error as core::ops::Drop>::drop, stub_anyhow_drop)]
     #[kani::stub(core::slice::memchr::memchr, stub_memchr)]
     #[kani::unwind(20)]
     c16_parse1_pi (thorough, "FromStr for Codes", "Pi(k) with a symbolic one-digit k") => parse_digits::<_, {PI}, 1>;
     #[kani::stub(alloc::fmt::format, stub_format)]
     #[kani::stub(std::string::ToString::to_string, stub_to_string)]
     #[kani::stub(std::backtrace::Backtrace::capture, stub_backtrace_capture)]
+    #[kani::stub(<anyhow::Error as core::ops::Drop>::drop, stub_anyhow_drop)]
     #[kani::stub(core::slice::memchr::memchr, stub_memchr)]
     #[kani::unwind(20)]
     c16_parse_golomb (thorough, "FromStr for Codes", "Golomb(k) with a symbolic two-digit k (10..=99)") => parse_digits::<_, {GOLOMB}, 2>;
     #[kani::stub(alloc::fmt::format, stub_format)]
     #[kani::stub(std::string::ToString::to_string, stub_to_string)]
     #[kani::stub(std::backtrace::Backtrace::capture, stub_backtrace_capture)]
+    #[kani::stub(<anyhow::Error as core::ops::Drop>::drop, stub_anyhow_drop)]
     #[kani::stub(core::slice::memchr::memchr, stub_memchr)]
     #[kani::unwind(20)]
     c16_parse1_golomb (thorough, "FromStr for Codes", "Golomb(k) with a symbolic one-digit k") => parse_digits::<_, {GOLOMB}, 1>;
     #[kani::stub(alloc::fmt::format, stub_format)]
     #[kani::stub(std::string::ToString::to_string, stub_to_string)]
     #[kani::stub(std::backtrace::Backtrace::capture, stub_backtrace_capture)]
+    #[kani::stub(<anyhow::Error as core::ops::Drop>::drop, stub_anyhow_drop)]
     #[kani::stub(core::slice::memchr::memchr, stub_memchr)]
     #[kani::unwind(20)]
     c16_parse_exp_golomb (thorough, "FromStr for Codes", "ExpGolomb(k) with a symbolic two-digit k (10..=99)") => parse_digits::<_, {EXP_GOLOMB}, 2>;
     #[kani::stub(alloc::fmt::format, stub_format)]
     #[kani::stub(std::string::ToString::to_string, stub_to_string)]
     #[kani::stub(std::backtrace::Backtrace::capture, stub_backtrace_capture)]
+    #[kani::stub(<anyhow::Error as core::ops::Drop>::drop, stub_anyhow_drop)]
     #[kani::stub(core::slice::memchr::memchr, stub_memchr)]
     #[kani::unwind(20)]
     c16_parse1_exp_golomb (thorough, "FromStr for Codes", "ExpGolomb(k) with a symbolic one-digit k") => parse_digits::<_, {EXP_GOLOMB}, 1>;
     #[kani::stub(alloc::fmt::format, stub_format)]
     #[kani::stub(std::string::ToString::to_string, stub_to_string)]
     #[kani::stub(std::backtrace::Backtrace::capture, stub_backtrace_capture)]
+    #[kani::stub(<anyhow::Error as core::ops::Drop>::drop, stub_anyhow_drop)]
     #[kani::stub(core::slice::memchr::memchr, stub_memchr)]
     #[kani::unwind(20)]
     c16_parse_rice (thorough, "FromStr for Codes", "Rice(k) with a symbolic two-digit k (10..=99)") => parse_digits::<_, {RICE}, 2>;
     #[kani::stub(alloc::fmt::format, stub_format)]
     #[kani::stub(std::string::ToString::to_string, stub_to_string)]
     #[kani::stub(std::backtrace::Backtrace::capture, stub_backtrace_capture)]
+    #[kani::stub(<anyhow::Error as core::ops::Drop>::drop, stub_anyhow_drop)]
     #[kani::stub(core::slice::memchr::memchr, stub_memchr)]
     #[kani::unwind(20)]
     c16_parse1_rice (thorough, "FromStr for Codes", "Rice(k) with a symbolic one-digit k") => parse_digits::<_, {RICE}, 1>;
     #[kani::stub(alloc::fmt::format, stub_format)]
     #[kani::stub(std::string::ToString::to_string, stub_to_string)]
     #[kani::stub(std::backtrace::Backtrace::capture, stub_backtrace_capture)]
+    #[kani::stub(<anyhow::Error as core::ops::Drop>::drop, stub_anyhow_drop)]
     #[kani::stub(core::slice::memchr::memchr, stub_memchr)]
     #[kani::unwind(20)]
     c16_parse_literal_unary (quick, "FromStr for Codes", "literal name of UNARY") => parse_literal::<_, {UNARY}>;
     #[kani::stub(alloc::fmt::format, stub_format)]
     #[kani::stub(std::string::ToString::to_string, stub_to_string)]
     #[kani::stub(std::backtrace::Backtrace::capture, stub_backtrace_capture)]
+    #[kani::stub(<anyhow::Error as core::ops::Drop>::drop, stub_anyhow_drop)]
     #[kani::stub(core::slice::memchr::memchr, stub_memchr)]
     #[kani::unwind(20)]
     c16_parse_literal_gamma (quick, "FromStr for Codes", "literal name of GAMMA") => parse_literal::<_, {GAMMA}>;
     #[kani::stub(alloc::fmt::format, stub_format)]
     #[kani::stub(std::string::ToString::to_string, stub_to_string)]
     #[kani::stub(std::backtrace::Backtrace::capture, stub_backtrace_capture)]
+    #[kani::stub(<anyhow::Error as core::ops::Drop>::drop, stub_anyhow_drop)]
     #[kani::stub(core::slice::memchr::memchr, stub_memchr)]
     #[kani::unwind(20)]
     c16_parse_literal_delta (quick, "FromStr for Codes", "literal name of DELTA") => parse_literal::<_, {DELTA}>;
     #[kani::stub(alloc::fmt::format, stub_format)]
     #[kani::stub(std::string::ToString::to_string, stub_to_string)]
     #[kani::stub(std::backtrace::Backtrace::capture, stub_backtrace_capture)]
+    #[kani::stub(<anyhow::Error as core::ops::Drop>::drop, stub_anyhow_drop)]
     #[kani::stub(core::slice::memchr::memchr, stub_memchr)]
     #[kani::unwind(20)]
     c16_parse_literal_omega (quick, "FromStr for Codes", "literal name of OMEGA") => parse_literal::<_, {OMEGA}>;
     #[kani::stub(alloc::fmt::format, stub_format)]
     #[kani::stub(std::string::ToString::to_string, stub_to_string)]
     #[kani::stub(std::backtrace::Backtrace::capture, stub_backtrace_capture)]
+    #[kani::stub(<anyhow::Error as core::ops::Drop>::drop, stub_anyhow_drop)]
     #[kani::stub(core::slice::memchr::memchr, stub_memchr)]
     #[kani::unwind(20)]
     c16_parse_literal_vbyte_be (quick, "FromStr for Codes", "literal name of VBYTE_BE") => parse_literal::<_, {VBYTE_BE}>;
     #[kani::stub(alloc::fmt::format, stub_format)]
     #[kani::stub(std::string::ToString::to_string, stub_to_string)]
     #[kani::stub(std::backtrace::Backtrace::capture, stub_backtrace_capture)]
+    #[kani::stub(<anyhow::Error as core::ops::Drop>::drop, stub_anyhow_drop)]
     #[kani::stub(core::slice::memchr::memchr, stub_memchr)]
     #[kani::unwind(20)]
     c16_parse_literal_vbyte_le (quick, "FromStr for Codes", "literal name of VBYTE_LE") => parse_literal::<_, {VBYTE_LE}>;
     #[kani::stub(alloc::fmt::format, stub_format)]
     #[kani::stub(std::string::ToString::to_string, stub_to_string)]
     #[kani::stub(std::backtrace::Backtrace::capture, stub_backtrace_capture)]
+    #[kani::stub(<anyhow::Error as core::ops::Drop>::drop, stub_anyhow_drop)]
     #[kani::stub(core::slice::memchr::memchr, stub_memchr)]
     #[kani::unwind(40)]
     c16_parse_malformed_0 (quick, "FromStr for Codes", "malformed text #0") => parse_malformed::<_, 0>;
     #[kani::stub(alloc::fmt::format, stub_format)]
     #[kani::stub(std::string::ToString::to_string, stub_to_string)]
     #[kani::stub(std::backtrace::Backtrace::capture, stub_backtrace_capture)]
+    #[kani::stub(<anyhow::Error as core::ops::Drop>::drop, stub_anyhow_drop)]
     #[kani::stub(core::slice::memchr::memchr, stub_memchr)]
     #[kani::unwind(40)]
     c16_parse_malformed_1 (quick, "FromStr for Codes", "malformed text #1") => parse_malformed::<_, 1>;
     #[kani::stub(alloc::fmt::format, stub_format)]
     #[kani::stub(std::string::ToString::to_string, stub_to_string)]
     #[kani::stub(std::backtrace::Backtrace::capture, stub_backtrace_capture)]
+    #[kani::stub(<anyhow::Error as core::ops::Drop>::drop, stub_anyhow_drop)]
     #[kani::stub(core::slice::memchr::memchr, stub_memchr)]
     #[kani::unwind(40)]
     c16_parse_malformed_2 (quick, "FromStr for Codes", "malformed text #2") => parse_malformed::<_, 2>;
     #[kani::stub(alloc::fmt::format, stub_format)]
     #[kani::stub(std::string::ToString::to_string, stub_to_string)]
     #[kani::stub(std::backtrace::Backtrace::capture, stub_backtrace_capture)]
+    #[kani::stub(<anyhow::Error as core::ops::Drop>::drop, stub_anyhow_drop)]
     #[kani::stub(core::slice::memchr::memchr, stub_memchr)]
     #[kani::unwind(40)]
     c16_parse_malformed_3 (quick, "FromStr for Codes", "malformed text #3") => parse_malformed::<_, 3>;
     #[kani::stub(alloc::fmt::format, stub_format)]
     #[kani::stub(std::string::ToString::to_string, stub_to_string)]
     #[kani::stub(std::backtrace::Backtrace::capture, stub_backtrace_capture)]
+    #[kani::stub(<anyhow::Error as core::ops::Drop>::drop, stub_anyhow_drop)]
     #[kani::stub(core::slice::memchr::memchr, stub_memchr)]
     #[kani::unwind(40)]
     c16_parse_malformed_4 (thorough, "FromStr for Codes", "malformed text #4") => parse_malformed::<_, 4>;
     #[kani::stub(alloc::fmt::format, stub_format)]
     #[kani::stub(std::string::ToString::to_string, stub_to_string)]
     #[kani::stub(std::backtrace::Backtrace::capture, stub_backtrace_capture)]
+    #[kani::stub(<anyhow::Error as core::ops::Drop>::drop, stub_anyhow_drop)]
     #[kani::stub(core::slice::memchr::memchr, stub_memchr)]
     #[kani::unwind(40)]
     c16_parse_malformed_5 (thorough, "FromStr for Codes", "malformed text #5") => parse_malformed::<_, 5>;
     #[kani::stub(alloc::fmt::format, stub_format)]
     #[kani::stub(std::string::ToString::to_string, stub_to_string)]
     #[kani::stub(std::backtrace::Backtrace::capture, stub_backtrace_capture)]
+    #[kani::stub(<anyhow::Error as core::ops::Drop>::drop, stub_anyhow_drop)]
     #[kani::stub(core::slice::memchr::memchr, stub_memchr)]
     #[kani::unwind(40)]
     c16_parse_malformed_6 (thorough, "FromStr for Codes", "malformed text #6") => parse_malformed::<_, 6>;
     #[kani::stub(alloc::fmt::format, stub_format)]
     #[kani::stub(std::string::ToString::to_string, stub_to_string)]
     #[kani::stub(std::backtrace::Backtrace::capture, stub_backtrace_capture)]
+    #[kani::stub(<anyhow::Error as core::ops::Drop>::drop, stub_anyhow_drop)]
     #[kani::stub(core::slice::memchr::memchr, stub_memchr)]
     #[kani::unwind(40)]
     c16_parse_malformed_7 (thorough, "FromStr for Codes", "malformed text #7") => parse_malformed::<_, 7>;
     #[kani::stub(alloc::fmt::format, stub_format)]
     #[kani::stub(std::string::ToString::to_string, stub_to_string)]
     #[kani::stub(std::backtrace::Backtrace::capture, stub_backtrace_capture)]
+    #[kani::stub(<anyhow::Error as core::ops::Drop>::drop, stub_anyhow_drop)]
     #[kani::stub(core::slice::memchr::memchr, stub_memchr)]
     #[kani::unwind(40)]
     c16_parse_malformed_8 (quick, "FromStr for Codes", "malformed text #8") => parse_malformed::<_, 8>;
     #[kani::stub(alloc::fmt::format, stub_format)]
     #[kani::stub(std::string::ToString::to_string, stub_to_string)]
     #[kani::stub(std::backtrace::Backtrace::capture, stub_backtrace_capture)]
+    #[kani::stub(<anyhow::Error as core::ops::Drop>::drop, stub_anyhow_drop)]
     #[kani::stub(core::slice::memchr::memchr, stub_memchr)]
     #[kani::unwind(40)]
     c16_parse_malformed_9 (quick, "FromStr for Codes", "malformed text #9") => parse_malformed::<_, 9>;
     #[kani::stub(alloc::fmt::format, stub_format)]
     #[kani::stub(std::string::ToString::to_string, stub_to_string)]
     #[kani::stub(std::backtrace::Backtrace::capture, stub_backtrace_capture)]
+    #[kani::stub(<anyhow::Error as core::ops::Drop>::drop, stub_anyhow_drop)]
     #[kani::stub(core::slice::memchr::memchr, stub_memchr)]
     #[kani::unwind(40)]
     c16_parse_malformed_10 (quick, "FromStr for Codes", "malformed text #10") => parse_malformed::<_, 10>;
     #[kani::stub(alloc::fmt::format, stub_format)]
     #[kani::stub(std::string::ToString::to_string, stub_to_string)]
     #[kani::stub(std::backtrace::Backtrace::capture, stub_backtrace_capture)]
+    #[kani::stub(<anyhow::Error as core::ops::Drop>::drop, stub_anyhow_drop)]
     #[kani::stub(core::slice::memchr::memchr, stub_memchr)]
     #[kani::unwind(40)]
     c16_parse_malformed_11 (thorough, "FromStr for Codes", "malformed text #11") => parse_malformed::<_, 11>;
     #[kani::stub(alloc::fmt::format, stub_format)]
     #[kani::stub(std::string::ToString::to_string, stub_to_string)]
     #[kani::stub(std::backtrace::Backtrace::capture, stub_backtrace_capture)]
+    #[kani::stub(<anyhow::Error as core::ops::Drop>::drop, stub_anyhow_drop)]
     #[kani::stub(core::slice::memchr::memchr, stub_memchr)]
     #[kani::unwind(20)]
     c16_parse_unknown_name (thorough, "FromStr for Codes", "symbolic 4-letter alphabetic name other than Zeta/Rice, parameter 7") => parse_unknown_name;
     #[kani::stub(alloc::fmt::format, stub_format)]
     #[kani::stub(std::string::ToString::to_string, stub_to_string)]
     #[kani::stub(std::backtrace::Backtrace::capture, stub_backtrace_capture)]
+    #[kani::stub(<anyhow::Error as core::ops::Drop>::drop, stub_anyhow_drop)]
     #[kani::stub(core::slice::memchr::memchr, stub_memchr)]
     #[kani::unwind(50)]
     c16_parsek_zeta_0 (quick, "FromStr for Codes", "Zeta(0): concrete parameter, text built from the Display template") => parse_concrete::<_, {ZETA}, 0>;
     #[kani::stub(alloc::fmt::format, stub_format)]
     #[kani::stub(std::string::ToString::to_string, stub_to_string)]
     #[kani::stub(std::backtrace::Backtrace::capture, stub_backtrace_capture)]
+    #[kani::stub(<anyhow::Error as core::ops::Drop>::drop, stub_anyhow_drop)]
     #[kani::stub(core::slice::memchr::memchr, stub_memchr)]
     #[kani::unwind(50)]
     c16_parsek_zeta_7 (quick, "FromStr for Codes", "Zeta(7): concrete parameter, text built from the Display template") => parse_concrete::<_, {ZETA}, 7>;
     #[kani::stub(alloc::fmt::format, stub_format)]
     #[kani::stub(std::string::ToString::to_string, stub_to_string)]
     #[kani::stub(std::backtrace::Backtrace::capture, stub_backtrace_capture)]
+    #[kani::stub(<anyhow::Error as core::ops::Drop>::drop, stub_anyhow_drop)]
     #[kani::stub(core::slice::memchr::memchr, stub_memchr)]
     #[kani::unwind(50)]
     c16_parsek_zeta_64 (quick, "FromStr for Codes", "Zeta(64): concrete parameter, text built from the Display template") => parse_concrete::<_, {ZETA}, 64>;
     #[kani::stub(alloc::fmt::format, stub_format)]
     #[kani::stub(std::string::ToString::to_string, stub_to_string)]
     #[kani::stub(std::backtrace::Backtrace::capture, stub_backtrace_capture)]
+    #[kani::stub(<anyhow::Error as core::ops::Drop>::drop, stub_anyhow_drop)]
     #[kani::stub(core::slice::memchr::memchr, stub_memchr)]
     #[kani::unwind(50)]
     c16_parsek_zeta_255 (quick, "FromStr for Codes", "Zeta(255): concrete parameter, text built from the Display template") => parse_concrete::<_, {ZETA}, 255>;
     #[kani::stub(alloc::fmt::format, stub_format)]
     #[kani::stub(std::string::ToString::to_string, stub_to_string)]
     #[kani::stub(std::backtrace::Backtrace::capture, stub_backtrace_capture)]
+    #[kani::stub(<anyhow::Error as core::ops::Drop>::drop, stub_anyhow_drop)]
     #[kani::stub(core::slice::memchr::memchr, stub_memchr)]
     #[kani::unwind(50)]
     c16_parsek_zeta_256 (quick, "FromStr for Codes", "Zeta(256): concrete parameter, text built from the Display template") => parse_concrete::<_, {ZETA}, 256>;
     #[kani::stub(alloc::fmt::format, stub_format)]
     #[kani::stub(std::string::ToString::to_string, stub_to_string)]
     #[kani::stub(std::backtrace::Backtrace::capture, stub_backtrace_capture)]
+    #[kani::stub(<anyhow::Error as core::ops::Drop>::drop, stub_anyhow_drop)]
     #[kani::stub(core::slice::memchr::memchr, stub_memchr)]
     #[kani::unwind(50)]
     c16_parsek_zeta_300 (quick, "FromStr for Codes", "Zeta(300): concrete parameter, text built from the Display template") => parse_concrete::<_, {ZETA}, 300>;
     #[kani::stub(alloc::fmt::format, stub_format)]
     #[kani::stub(std::string::ToString::to_string, stub_to_string)]
     #[kani::stub(std::backtrace::Backtrace::capture, stub_backtrace_capture)]
+    #[kani::stub(<anyhow::Error as core::ops::Drop>::drop, stub_anyhow_drop)]
     #[kani::stub(core::slice::memchr::memchr, stub_memchr)]
     #[kani::unwind(50)]
     c16_parsek_zeta_65536 (quick, "FromStr for Codes", "Zeta(65536): concrete parameter, text built from the Display template") => parse_concrete::<_, {ZETA}, 65536>;
     #[kani::stub(alloc::fmt::format, stub_format)]
     #[kani::stub(std::string::ToString::to_string, stub_to_string)]
     #[kani::stub(std::backtrace::Backtrace::capture, stub_backtrace_capture)]
+    #[kani::stub(<anyhow::Error as core::ops::Drop>::drop, stub_anyhow_drop)]
     #[kani::stub(core::slice::memchr::memchr, stub_memchr)]
     #[kani::unwind(50)]
     c16_parsek_zeta_4294967296 (quick, "FromStr for Codes", "Zeta(4294967296): concrete parameter, text built from the Display template") => parse_concrete::<_, {ZETA}, 4294967296>;
     #[kani::stub(alloc::fmt::format, stub_format)]
     #[kani::stub(std::string::ToString::to_string, stub_to_string)]
     #[kani::stub(std::backtrace::Backtrace::capture, stub_backtrace_capture)]
+    #[kani::stub(<anyhow::Error as core::ops::Drop>::drop, stub_anyhow_drop)]
     #[kani::stub(core::slice::memchr::memchr, stub_memchr)]
     #[kani::unwind(50)]
     c16_parsek_zeta_18446744073709551615 (quick, "FromStr for Codes", "Zeta(18446744073709551615): concrete parameter, text built from the Display template") => parse_concrete::<_, {ZETA}, 18446744073709551615>;
     #[kani::stub(alloc::fmt::format, stub_format)]
     #[kani::stub(std::string::ToString::to_string, stub_to_string)]
     #[kani::stub(std::backtrace::Backtrace::capture, stub_backtrace_capture)]
+    #[kani::stub(<anyhow::Error as core::ops::Drop>::drop, stub_anyhow_drop)]
     #[kani::stub(core::slice::memchr::memchr, stub_memchr)]
     #[kani::unwind(50)]
     c16_parsek_pi_0 (quick, "FromStr for Codes", "Pi(0): concrete parameter, text built from the Display template") => parse_concrete::<_, {PI}, 0>;
     #[kani::stub(alloc::fmt::format, stub_format)]
     #[kani::stub(std::string::ToString::to_string, stub_to_string)]
     #[kani::stub(std::backtrace::Backtrace::capture, stub_backtrace_capture)]
+    #[kani::stub(<anyhow::Error as core::ops::Drop>::drop, stub_anyhow_drop)]
     #[kani::stub(core::slice::memchr::memchr, stub_memchr)]
     #[kani::unwind(50)]
     c16_parsek_pi_7 (quick, "FromStr for Codes", "Pi(7): concrete parameter, text built from the Display template") => parse_concrete::<_, {PI}, 7>;
     #[kani::stub(alloc::fmt::format, stub_format)]
     #[kani::stub(std::string::ToString::to_string, stub_to_string)]
     #[kani::stub(std::backtrace::Backtrace::capture, stub_backtrace_capture)]
+    #[kani::stub(<anyhow::Error as core::ops::Drop>::drop, stub_anyhow_drop)]
     #[kani::stub(core::slice::memchr::memchr, stub_memchr)]
     #[kani::unwind(50)]
     c16_parsek_pi_64 (quick, "FromStr for Codes", "Pi(64): concrete parameter, text built from the Display template") => parse_concrete::<_, {PI}, 64>;
     #[kani::stub(alloc::fmt::format, stub_format)]
     #[kani::stub(std::string::ToString::to_string, stub_to_string)]
     #[kani::stub(std::backtrace::Backtrace::capture, stub_backtrace_capture)]
+    #[kani::stub(<anyhow::Error as core::ops::Drop>::drop, stub_anyhow_drop)]
     #[kani::stub(core::slice::memchr::memchr, stub_memchr)]
     #[kani::unwind(50)]
     c16_parsek_pi_255 (quick, "FromStr for Codes", "Pi(255): concrete parameter, text built from the Display template") => parse_concrete::<_, {PI}, 255>;
     #[kani::stub(alloc::fmt::format, stub_format)]
     #[kani::stub(std::string::ToString::to_string, stub_to_string)]
     #[kani::stub(std::backtrace::Backtrace::capture, stub_backtrace_capture)]
+    #[kani::stub(<anyhow::Error as core::ops::Drop>::drop, stub_anyhow_drop)]
     #[kani::stub(core::slice::memchr::memchr, stub_memchr)]
     #[kani::unwind(50)]
     c16_parsek_pi_256 (quick, "FromStr for Codes", "Pi(256): concrete parameter, text built from the Display template") => parse_concrete::<_, {PI}, 256>;
     #[kani::stub(alloc::fmt::format, stub_format)]
     #[kani::stub(std::string::ToString::to_string, stub_to_string)]
     #[kani::stub(std::backtrace::Backtrace::capture, stub_backtrace_capture)]
+    #[kani::stub(<anyhow::Error as core::ops::Drop>::drop, stub_anyhow_drop)]
     #[kani::stub(core::slice::memchr::memchr, stub_memchr)]
     #[kani::unwind(50)]
     c16_parsek_pi_300 (quick, "FromStr for Codes", "Pi(300): concrete parameter, text built from the Display template") => parse_concrete::<_, {PI}, 300>;
     #[kani::stub(alloc::fmt::format, stub_format)]
     #[kani::stub(std::string::ToString::to_string, stub_to_string)]
     #[kani::stub(std::backtrace::Backtrace::capture, stub_backtrace_capture)]
+    #[kani::stub(<anyhow::Error as core::ops::Drop>::drop, stub_anyhow_drop)]
     #[kani::stub(core::slice::memchr::memchr, stub_memchr)]
     #[kani::unwind(50)]
     c16_parsek_pi_65536 (quick, "FromStr for Codes", "Pi(65536): concrete parameter, text built from the Display template") => parse_concrete::<_, {PI}, 65536>;
     #[kani::stub(alloc::fmt::format, stub_format)]
     #[kani::stub(std::string::ToString::to_string, stub_to_string)]
     #[kani::stub(std::backtrace::Backtrace::capture, stub_backtrace_capture)]
+    #[kani::stub(<anyhow::Error as core::ops::Drop>::drop, stub_anyhow_drop)]
     #[kani::stub(core::slice::memchr::memchr, stub_memchr)]
     #[kani::unwind(50)]
     c16_parsek_pi_4294967296 (quick, "FromStr for Codes", "Pi(4294967296): concrete parameter, text built from the Display template") => parse_concrete::<_, {PI}, 4294967296>;
     #[kani::stub(alloc::fmt::format, stub_format)]
     #[kani::stub(std::string::ToString::to_string, stub_to_string)]
     #[kani::stub(std::backtrace::Backtrace::capture, stub_backtrace_capture)]
+    #[kani::stub(<anyhow::Error as core::ops::Drop>::drop, stub_anyhow_drop)]
     #[kani::stub(core::slice::memchr::memchr, stub_memchr)]
     #[kani::unwind(50)]
     c16_parsek_pi_18446744073709551615 (quick, "FromStr for Codes", "Pi(18446744073709551615): concrete parameter, text built from the Display template") => parse_concrete::<_, {PI}, 18446744073709551615>;
     #[kani::stub(alloc::fmt::format, stub_format)]
     #[kani::stub(std::string::ToString::to_string, stub_to_string)]
     #[kani::stub(std::backtrace::Backtrace::capture, stub_backtrace_capture)]
+    #[kani::stub(<anyhow::Error as core::ops::Drop>::drop, stub_anyhow_drop)]
     #[kani::stub(core::slice::memchr::memchr, stub_memchr)]
     #[kani::unwind(50)]
     c16_parsek_golomb_0 (quick, "FromStr for Codes", "Golomb(0): concrete parameter, text built from the Display template") => parse_concrete::<_, {GOLOMB}, 0>;
     #[kani::stub(alloc::fmt::format, stub_format)]
     #[kani::stub(std::string::ToString::to_string, stub_to_string)]
     #[kani::stub(std::backtrace::Backtrace::capture, stub_backtrace_capture)]
+    #[kani::stub(<anyhow::Error as core::ops::Drop>::drop, stub_anyhow_drop)]
     #[kani::stub(core::slice::memchr::memchr, stub_memchr)]
     #[kani::unwind(50)]
     c16_parsek_golomb_7 (quick, "FromStr for Codes", "Golomb(7): concrete parameter, text built from the Display template") => parse_concrete::<_, {GOLOMB}, 7>;
     #[kani::stub(alloc::fmt::format, stub_format)]
     #[kani::stub(std::string::ToString::to_string, stub_to_string)]
     #[kani::stub(std::backtrace::Backtrace::capture, stub_backtrace_capture)]
+    #[kani::stub(<anyhow::Error as core::ops::Drop>::drop, stub_anyhow_drop)]
     #[kani::stub(core::slice::memchr::memchr, stub_memchr)]
     #[kani::unwind(50)]
     c16_parsek_golomb_64 (quick, "FromStr for Codes", "Golomb(64): concrete parameter, text built from the Display template") => parse_concrete::<_, {GOLOMB}, 64>;
     #[kani::stub(alloc::fmt::format, stub_format)]
     #[kani::stub(std::string::ToString::to_string, stub_to_string)]
     #[kani::stub(std::backtrace::Backtrace::capture, stub_backtrace_capture)]
+    #[kani::stub(<anyhow::Error as core::ops::Drop>::drop, stub_anyhow_drop)]
     #[kani::stub(core::slice::memchr::memchr, stub_memchr)]
     #[kani::unwind(50)]
     c16_parsek_golomb_255 (quick, "FromStr for Codes", "Golomb(255): concrete parameter, text built from the Display template") => parse_concrete::<_, {GOLOMB}, 255>;
     #[kani::stub(alloc::fmt::format, stub_format)]
     #[kani::stub(std::string::ToString::to_string, stub_to_string)]
     #[kani::stub(std::backtrace::Backtrace::capture, stub_backtrace_capture)]
+    #[kani::stub(<anyhow::Error as core::ops::Drop>::drop, stub_anyhow_drop)]
     #[kani::stub(core::slice::memchr::memchr, stub_memchr)]
     #[kani::unwind(50)]
     c16_parsek_golomb_256 (quick, "FromStr for Codes", "Golomb(256): concrete parameter, text built from the Display template") => parse_concrete::<_, {GOLOMB}, 256>;
     #[kani::stub(alloc::fmt::format, stub_format)]
     #[kani::stub(std::string::ToString::to_string, stub_to_string)]
     #[kani::stub(std::backtrace::Backtrace::capture, stub_backtrace_capture)]
+    #[kani::stub(<anyhow::Error as core::ops::Drop>::drop, stub_anyhow_drop)]
     #[kani::stub(core::slice::memchr::memchr, stub_memchr)]
     #[kani::unwind(50)]
     c16_parsek_golomb_300 (quick, "FromStr for Codes", "Golomb(300): concrete parameter, text built from the Display template") => parse_concrete::<_, {GOLOMB}, 300>;
     #[kani::stub(alloc::fmt::format, stub_format)]
     #[kani::stub(std::string::ToString::to_string, stub_to_string)]
     #[kani::stub(std::backtrace::Backtrace::capture, stub_backtrace_capture)]
+    #[kani::stub(<anyhow::Error as core::ops::Drop>::drop, stub_anyhow_drop)]
     #[kani::stub(core::slice::memchr::memchr, stub_memchr)]
     #[kani::unwind(50)]
     c16_parsek_golomb_65536 (quick, "FromStr for Codes", "Golomb(65536): concrete parameter, text built from the Display template") => parse_concrete::<_, {GOLOMB}, 65536>;
     #[kani::stub(alloc::fmt::format, stub_format)]
     #[kani::stub(std::string::ToString::to_string, stub_to_string)]
     #[kani::stub(std::backtrace::Backtrace::capture, stub_backtrace_capture)]
+    #[kani::stub(<anyhow::Error as core::ops::Drop>::drop, stub_anyhow_drop)]
     #[kani::stub(core::slice::memchr::memchr, stub_memchr)]
     #[kani::unwind(50)]
     c16_parsek_golomb_4294967296 (quick, "FromStr for Codes", "Golomb(4294967296): concrete parameter, text built from the Display template") => parse_concrete::<_, {GOLOMB}, 4294967296>;
     #[kani::stub(alloc::fmt::format, stub_format)]
     #[kani::stub(std::string::ToString::to_string, stub_to_string)]
     #[kani::stub(std::backtrace::Backtrace::capture, stub_backtrace_capture)]
+    #[kani::stub(<anyhow::Error as core::ops::Drop>::drop, stub_anyhow_drop)]
     #[kani::stub(core::slice::memchr::memchr, stub_memchr)]
     #[kani::unwind(50)]
     c16_parsek_golomb_18446744073709551615 (quick, "FromStr for Codes", "Golomb(18446744073709551615): concrete parameter, text built from the Display template") => parse_concrete::<_, {GOLOMB}, 18446744073709551615>;
     #[kani::stub(alloc::fmt::format, stub_format)]
     #[kani::stub(std::string::ToString::to_string, stub_to_string)]
     #[kani::stub(std::backtrace::Backtrace::capture, stub_backtrace_capture)]
+    #[kani::stub(<anyhow::Error as core::ops::Drop>::drop, stub_anyhow_drop)]
     #[kani::stub(core::slice::memchr::memchr, stub_memchr)]
     #[kani::unwind(50)]
     c16_parsek_exp_golomb_0 (quick, "FromStr for Codes", "ExpGolomb(0): concrete parameter, text built from the Display template") => parse_concrete::<_, {EXP_GOLOMB}, 0>;
     #[kani::stub(alloc::fmt::format, stub_format)]
     #[kani::stub(std::string::ToString::to_string, stub_to_string)]
     #[kani::stub(std::backtrace::Backtrace::capture, stub_backtrace_capture)]
+    #[kani::stub(<anyhow::Error as core::ops::Drop>::drop, stub_anyhow_drop)]
     #[kani::stub(core::slice::memchr::memchr, stub_memchr)]
     #[kani::unwind(50)]
     c16_parsek_exp_golomb_7 (quick, "FromStr for Codes", "ExpGolomb(7): concrete parameter, text built from the Display template") => parse_concrete::<_, {EXP_GOLOMB}, 7>;
     #[kani::stub(alloc::fmt::format, stub_format)]
     #[kani::stub(std::string::ToString::to_string, stub_to_string)]
     #[kani::stub(std::backtrace::Backtrace::capture, stub_backtrace_capture)]
+    #[kani::stub(<anyhow::Error as core::ops::Drop>::drop, stub_anyhow_drop)]
     #[kani::stub(core::slice::memchr::memchr, stub_memchr)]
     #[kani::unwind(50)]
     c16_parsek_exp_golomb_64 (quick, "FromStr for Codes", "ExpGolomb(64): concrete parameter, text built from the Display template") => parse_concrete::<_, {EXP_GOLOMB}, 64>;
     #[kani::stub(alloc::fmt::format, stub_format)]
     #[kani::stub(std::string::ToString::to_string, stub_to_string)]
     #[kani::stub(std::backtrace::Backtrace::capture, stub_backtrace_capture)]
+    #[kani::stub(<anyhow::Error as core::ops::Drop>::drop, stub_anyhow_drop)]
     #[kani::stub(core::slice::memchr::memchr, stub_memchr)]
     #[kani::unwind(50)]
     c16_parsek_exp_golomb_255 (quick, "FromStr for Codes", "ExpGolomb(255): concrete parameter, text built from the Display template") => parse_concrete::<_, {EXP_GOLOMB}, 255>;
     #[kani::stub(alloc::fmt::format, stub_format)]
     #[kani::stub(std::string::ToString::to_string, stub_to_string)]
     #[kani::stub(std::backtrace::Backtrace::capture, stub_backtrace_capture)]
+    #[kani::stub(<anyhow::Error as core::ops::Drop>::drop, stub_anyhow_drop)]
     #[kani::stub(core::slice::memchr::memchr, stub_memchr)]
     #[kani::unwind(50)]
     c16_parsek_exp_golomb_256 (quick, "FromStr for Codes", "ExpGolomb(256): concrete parameter, text built from the Display template") => parse_concrete::<_, {EXP_GOLOMB}, 256>;
     #[kani::stub(alloc::fmt::format, stub_format)]
     #[kani::stub(std::string::ToString::to_string, stub_to_string)]
     #[kani::stub(std::backtrace::Backtrace::capture, stub_backtrace_capture)]
+    #[kani::stub(<anyhow::Error as core::ops::Drop>::drop, stub_anyhow_drop)]
     #[kani::stub(core::slice::memchr::memchr, stub_memchr)]
     #[kani::unwind(50)]
     c16_parsek_exp_golomb_300 (quick, "FromStr for Codes", "ExpGolomb(300): concrete parameter, text built from the Display template") => parse_concrete::<_, {EXP_GOLOMB}, 300>;
     #[kani::stub(alloc::fmt::format, stub_format)]
     #[kani::stub(std::string::ToString::to_string, stub_to_string)]
     #[kani::stub(std::backtrace::Backtrace::capture, stub_backtrace_capture)]
+    #[kani::stub(<anyhow::Error as core::ops::Drop>::drop, stub_anyhow_drop)]
     #[kani::stub(core::slice::memchr::memchr, stub_memchr)]
     #[kani::unwind(50)]
     c16_parsek_exp_golomb_65536 (quick, "FromStr for Codes", "ExpGolomb(65536): concrete parameter, text built from the Display template") => parse_concrete::<_, {EXP_GOLOMB}, 65536>;
     #[kani::stub(alloc::fmt::format, stub_format)]
     #[kani::stub(std::string::ToString::to_string, stub_to_string)]
     #[kani::stub(std::backtrace::Backtrace::capture, stub_backtrace_capture)]
+    #[kani::stub(<anyhow::Error as core::ops::Drop>::drop, stub_anyhow_drop)]
     #[kani::stub(core::slice::memchr::memchr, stub_memchr)]
     #[kani::unwind(50)]
     c16_parsek_exp_golomb_4294967296 (quick, "FromStr for Codes", "ExpGolomb(4294967296): concrete parameter, text built from the Display template") => parse_concrete::<_, {EXP_GOLOMB}, 4294967296>;
     #[kani::stub(alloc::fmt::format, stub_format)]
     #[kani::stub(std::string::ToString::to_string, stub_to_string)]
     #[kani::stub(std::backtrace::Backtrace::capture, stub_backtrace_capture)]
+    #[kani::stub(<anyhow::Error as core::ops::Drop>::drop, stub_anyhow_drop)]
     #[kani::stub(core::slice::memchr::memchr, stub_memchr)]
     #[kani::unwind(50)]
     c16_parsek_exp_golomb_18446744073709551615 (quick, "FromStr for Codes", "ExpGolomb(18446744073709551615): concrete parameter, text built from the Display template") => parse_concrete::<_, {EXP_GOLOMB}, 18446744073709551615>;
     #[kani::stub(alloc::fmt::format, stub_format)]
     #[kani::stub(std::string::ToString::to_string, stub_to_string)]
     #[kani::stub(std::backtrace::Backtrace::capture, stub_backtrace_capture)]
+    #[kani::stub(<anyhow::Error as core::ops::Drop>::drop, stub_anyhow_drop)]
     #[kani::stub(core::slice::memchr::memchr, stub_memchr)]
     #[kani::unwind(50)]
     c16_parsek_rice_0 (quick, "FromStr for Codes", "Rice(0): concrete parameter, text built from the Display template") => parse_concrete::<_, {RICE}, 0>;
     #[kani::stub(alloc::fmt::format, stub_format)]
     #[kani::stub(std::string::ToString::to_string, stub_to_string)]
     #[kani::stub(std::backtrace::Backtrace::capture, stub_backtrace_capture)]
+    #[kani::stub(<anyhow::Error as core::ops::Drop>::drop, stub_anyhow_drop)]
     #[kani::stub(core::slice::memchr::memchr, stub_memchr)]
     #[kani::unwind(50)]
     c16_parsek_rice_7 (quick, "FromStr for Codes", "Rice(7): concrete parameter, text built from the Display template") => parse_concrete::<_, {RICE}, 7>;
     #[kani::stub(alloc::fmt::format, stub_format)]
     #[kani::stub(std::string::ToString::to_string, stub_to_string)]
     #[kani::stub(std::backtrace::Backtrace::capture, stub_backtrace_capture)]
+    #[kani::stub(<anyhow::Error as core::ops::Drop>::drop, stub_anyhow_drop)]
     #[kani::stub(core::slice::memchr::memchr, stub_memchr)]
     #[kani::unwind(50)]
     c16_parsek_rice_64 (quick, "FromStr for Codes", "Rice(64): concrete parameter, text built from the Display template") => parse_concrete::<_, {RICE}, 64>;
     #[kani::stub(alloc::fmt::format, stub_format)]
     #[kani::stub(std::string::ToString::to_string, stub_to_string)]
     #[kani::stub(std::backtrace::Backtrace::capture, stub_backtrace_capture)]
+    #[kani::stub(<anyhow::Error as core::ops::Drop>::drop, stub_anyhow_drop)]
     #[kani::stub(core::slice::memchr::memchr, stub_memchr)]
     #[kani::unwind(50)]
     c16_parsek_rice_255 (quick, "FromStr for Codes", "Rice(255): concrete parameter, text built from the Display template") => parse_concrete::<_, {RICE}, 255>;
     #[kani::stub(alloc::fmt::format, stub_format)]
     #[kani::stub(std::string::ToString::to_string, stub_to_string)]
     #[kani::stub(std::backtrace::Backtrace::capture, stub_backtrace_capture)]
+    #[kani::stub(<anyhow::Error as core::ops::Drop>::drop, stub_anyhow_drop)]
     #[kani::stub(core::slice::memchr::memchr, stub_memchr)]
     #[kani::unwind(50)]
     c16_parsek_rice_256 (quick, "FromStr for Codes", "Rice(256): concrete parameter, text built from the Display template") => parse_concrete::<_, {RICE}, 256>;
     #[kani::stub(alloc::fmt::format, stub_format)]
     #[kani::stub(std::string::ToString::to_string, stub_to_string)]
     #[kani::stub(std::backtrace::Backtrace::capture, stub_backtrace_capture)]
+    #[kani::stub(<anyhow::Error as core::ops::Drop>::drop, stub_anyhow_drop)]
     #[kani::stub(core::slice::memchr::memchr, stub_memchr)]
     #[kani::unwind(50)]
     c16_parsek_rice_300 (quick, "FromStr for Codes", "Rice(300): concrete parameter, text built from the Display template") => parse_concrete::<_, {RICE}, 300>;
     #[kani::stub(alloc::fmt::format, stub_format)]
     #[kani::stub(std::string::ToString::to_string, stub_to_string)]
     #[kani::stub(std::backtrace::Backtrace::capture, stub_backtrace_capture)]
+    #[kani::stub(<anyhow::Error as core::ops::Drop>::drop, stub_anyhow_drop)]
     #[kani::stub(core::slice::memchr::memchr, stub_memchr)]
     #[kani::unwind(50)]
     c16_parsek_rice_65536 (quick, "FromStr for Codes", "Rice(65536): concrete parameter, text built from the Display template") => parse_concrete::<_, {RICE}, 65536>;
     #[kani::stub(alloc::fmt::format, stub_format)]
     #[kani::stub(std::string::ToString::to_string, stub_to_string)]
     #[kani::stub(std::backtrace::Backtrace::capture, stub_backtrace_capture)]
+    #[kani::stub(<anyhow::Error as core::ops::Drop>::drop, stub_anyhow_drop)]
     #[kani::stub(core::slice::memchr::memchr, stub_memchr)]
     #[kani::unwind(50)]
     c16_parsek_rice_4294967296 (quick, "FromStr for Codes", "Rice(4294967296): concrete parameter, text built from the Display template") => parse_concrete::<_, {RICE}, 4294967296>;
     #[kani::stub(alloc::fmt::format, stub_format)]
     #[kani::stub(std::string::ToString::to_string, stub_to_string)]
     #[kani::stub(std::backtrace::Backtrace::capture, stub_backtrace_capture)]
+    #[kani::stub(<anyhow::Error as core::ops::Drop>::drop, stub_anyhow_drop)]
     #[kani::stub(core::slice::memchr::memchr, stub_memchr)]
     #[kani::unwind(50)]
     c16_parsek_rice_18446744073709551615 (quick, "FromStr for Codes", "Rice(18446744073709551615): concrete parameter, text built from the Display template") => parse_concrete::<_, {RICE}, 18446744073709551615>;
